@@ -104,7 +104,7 @@ Section CMP.
                 PM.find tout (tensors a) = Some tsa /\ PM.find tout (tensors c) = Some tsc /\
                 t_dims tsa = t_dims tsc /\ List.length (t_idx tsa) = List.length (t_idx tsc) /\
                 (forall p q, In (p, q) (t_idx tsc) -> is_ptr p && is_ptr q = true) /\
-                t_vals tsc = VPtr bV 0 /\ (ph = false -> t_vals tsa = VNull);
+                t_vals tsc = VPtr bV 0 /\ vrel ph a cur (t_vals tsa) 0;
     rc_bv : exists bc, PM.find bV (heap c) = Some bc /\ b_live bc = true /\ b_float bc = true /\
                        b_input bc = false;
     rc_v : forall x t ov, mem x (r_v rl) = true -> lookup x (env a) = Some (t, ov) ->
@@ -152,12 +152,11 @@ Section CMP.
        exists o', lookup x (env (match oc with Some vC => with_env c (set_var x (t, Some vC) (env c)) | None => c end))
                   = Some (t, Some (VPtr bV o')) /\
                   (String.eqb x (r_root rl) = true -> o' = 0) /\ vrel ph a cur vE o') ->
-    (mem x (r_v rl) = false -> rdC rl U x = false -> oc = None) ->
     (String.eqb x (r_root rl) = true -> ph = true -> vE = VPtr cur 0) ->
     RC ph cur (with_env a (set_var x (t, Some vE) (env a)))
        (match oc with Some vC => with_env c (set_var x (t, Some vC) (env c)) | None => c end).
   Proof.
-    intros R Np Ti Tf Hrd Hin Hv Hno Hroot.
+    intros R Np Ti Tf Hrd Hin Hv Hroot.
     assert (Npo : String.eqb (r_out rl) x = false).
     { unfold pars in Np. simpl in Np. apply orb_false_iff in Np. destruct Np as [Np _].
       now rewrite String.eqb_sym. }
@@ -208,6 +207,8 @@ Section CMP.
     - intros x t v I L. eapply inptr_mono; eauto.
     - intros t Nt. destruct (Tn t Nt) as [Q1 Q2]. split; auto. intros ts F. destruct (Q2 ts F) as [Q3 Q4].
       split; [eapply inptr_mono; eauto|]. intros p q I. destruct (Q4 p q I). split; eapply inptr_mono; eauto.
+    - destruct To as (tsa & tsc & Q1 & Q2 & Q3 & Q4 & Q5 & Q6 & Q7). exists tsa, tsc. repeat split; auto.
+      eapply vrel_mono; [|eauto]. exact X3.
     - intros x t ov M L. destruct (Vv x t ov M L) as (o' & L1 & L2 & L3). exists o'. split; auto. split; auto.
       intros vE Q. eapply vrel_mono; [|eauto]. exact X3.
     - intros P. destruct (Cu P) as [Cr Cb]. constructor; rewrite ?He; auto. rewrite (X4 P). exact Cb.
@@ -255,6 +256,12 @@ Section CMP.
     forall r, eval a e = Ok r -> eval c e = Ok r.
   Proof.
     intros R. induction e; simpl sexpC; intros S r H; try discriminate; try exact H.
+    all: try (apply andb_prop in S; destruct S as [S1 S2]; cbn [eval] in *; unfold bin2 in *;
+              destruct (eval a e1) as [[x t1]|] eqn:E1; cbn [bind] in H; [|discriminate H];
+              rewrite (IHe1 S1 _ eq_refl); cbn [bind] in *;
+              try (match type of H with context [as_bool x] => destruct (as_bool x) as [[|]|]; cbn [bind] in *; try exact H; try discriminate H end);
+              destruct (eval a e2) as [[y t2]|] eqn:E2; cbn [bind] in H; [|discriminate H];
+              rewrite (IHe2 S2 _ eq_refl); exact H).
     - (* Var *)
       split_andb. destruct r as [v t]. cbn [eval] in *. now rewrite <- (rc_env _ _ _ _ R name ltac:(assumption)).
     - (* ArrayIndex *)
@@ -285,15 +292,1294 @@ Section CMP.
         rewrite (IHe2 ltac:(assumption) _ eq_refl). cbn [bind].
         destruct (index_value a (VDims t) iv) as [[x t3]|] eqn:IX; try discriminate.
         rewrite (dims_value _ _ _ _ _ _ _ _ R IX). exact H.
-    all: try (apply andb_prop in S; destruct S as [S1 S2]; cbn [eval] in *; unfold bin2 in *;
-              destruct (eval a e1) as [[x t1]|] eqn:E1; [|discriminate H];
-              rewrite (IHe1 S1 _ eq_refl); cbn [bind] in *;
-              try (destruct (as_bool x) as [[|]|]; cbn [bind] in *; try exact H);
-              destruct (eval a e2) as [[y t2]|] eqn:E2; [|discriminate H];
-              rewrite (IHe2 S2 _ eq_refl); exact H).
-    (* BooleanToInteger *)
-    cbn [eval] in *. destruct (eval a e) as [[x t1]|] eqn:E1; [|discriminate H].
-    rewrite (IHe S _ eq_refl). exact H.
+    - (* BooleanToInteger *)
+      cbn [eval] in *. destruct (eval a e) as [[x t1]|] eqn:E1; cbn [bind] in H; [|discriminate H].
+      rewrite (IHe S _ eq_refl). exact H.
+  Qed.
+
+
+  Definition okC (rE : value) (rC : res (value * list event)) : Prop :=
+    (exists t', rC = Ok (rE, t')) \/ rC = Err EOutOfBounds.
+
+  Lemma bin2_C1 op ra rb ra' rb' v t : bin2 op ra rb = Ok (v, t) ->
+    (forall x t1, ra = Ok (x, t1) -> okC x ra') -> (forall y t2, rb = Ok (y, t2) -> okC y rb') ->
+    okC v (bin2 op ra' rb').
+  Proof.
+    intros H A B. apply bin2_inv in H. destruct H as (x & t1 & y & t2 & E1 & E2 & OP).
+    unfold bin2. destruct (A _ _ E1) as [[t1' ->]| ->]; cbn [bind]; [|right; reflexivity].
+    destruct (B _ _ E2) as [[t2' ->]| ->]; cbn [bind]; [|right; reflexivity].
+    rewrite OP. cbn [bind]. left. eauto.
+  Qed.
+
+  Lemma load_V cur a c p iv v t3 w ty : RC true cur a c -> mem p (r_v rl) = true ->
+    lookup p (env a) = Some (ty, Some w) -> typed ty w = true ->
+    index_value a w iv = Ok (v, t3) ->
+    exists o, eval c (Var p) = Ok (VPtr bV o, []) /\
+              ((exists t', index_value c (VPtr bV o) iv = Ok (v, t')) \/
+               index_value c (VPtr bV o) iv = Err EOutOfBounds).
+  Proof.
+    intros R M L Ty IX. destruct (rc_v _ _ _ _ R p ty (Some w) M L) as (o' & Lc & _ & Vr).
+    specialize (Vr w eq_refl). unfold vrel in Vr.
+    pose proof (typed_shape _ _ Ty) as Sh.
+    destruct w; try contradiction; try (exfalso; eapply index_value_ptr; [|exact IX]; exact I).
+    destruct Vr as [Vr|(b & o & Q & Vr)]; [discriminate|]. inv Q.
+    unfold index_value in IX. destruct iv; try discriminate. unfold bind in IX.
+    destruct (load a b (o + z)) as [x|] eqn:Ld; try discriminate. inv IX.
+    destruct Vr as [[-> ->]|(bk & F & Lv)].
+    2:{ unfold load in Ld. rewrite F, Lv in Ld. discriminate. }
+    exists o. split.
+    { cbn [eval]. rewrite Lc. now rewrite (typed_ptr_any _ _ _ bV o Ty). }
+    destruct (rc_cur _ _ _ _ R eq_refl) as [_ (be & bc & Fe & Le & Fle & Ie & Fc & Sub)].
+    destruct (rc_bv _ _ _ _ R) as (bc' & Fc' & Lc' & Flc & Ic). rewrite Fc in Fc'. inv Fc'.
+    unfold index_value, bind, load in *. rewrite Fe, Le, Fle in Ld. rewrite Fc, Lc', Flc. cbn [negb] in *.
+    destruct ((o + z <? 0) || (b_len be <=? o + z)) eqn:RgE; try discriminate.
+    destruct ((o + z <? 0) || (b_len bc' <=? o + z)) eqn:RgC; [right; reflexivity|].
+    destruct (PM.find (key (o + z)) (b_cells be)) as [cv|] eqn:Fk; try discriminate.
+    assert (PM.find (key (o + z)) (b_cells bc') = Some cv) as ->.
+    { apply Sub; auto. apply orb_false_iff in RgC. destruct RgC as [R1 R2].
+      apply Z.ltb_ge in R1. apply Z.leb_gt in R2. unfold key. rewrite Z2Pos.id by lia. lia. }
+    destruct (typed TFloat cv); try discriminate. inv Ld. left. eauto.
+  Qed.
+
+  Lemma eval_C1 cur a c e : RC true cur a c -> sexpC rl U true e = true ->
+    forall v t, eval a e = Ok (v, t) -> okC v (eval c e).
+  Proof.
+    intros R. induction e; simpl sexpC; intros S v t H; try discriminate;
+      try (left; eexists; eapply (eval_C0 true cur a c); eauto; fail).
+    all: try (apply andb_prop in S; destruct S as [S1 S2]; cbn [eval] in *;
+              eapply bin2_C1; [exact H| |]; intros; eauto; fail).
+    - (* ArrayIndex *)
+      destruct e1 as [p| tgt at0 | | | | | | | | | | | | | | | | | | | |]; try discriminate.
+      + apply andb_prop in S. destruct S as [S1 S2].
+        destruct (rdC rl U p && (ins_p rl p || inv_p rl p)) eqn:Q.
+        { left. eexists. eapply (eval_C0 true cur a c); eauto. simpl sexpC. now rewrite Q, S2. }
+        simpl in S1. rewrite eval_idx_unf in *.
+        destruct (eval a (Var p)) as [[w t1]|] eqn:Ep; try discriminate. cbn [bind] in H.
+        destruct (eval a e2) as [[iv t2]|] eqn:Ei; try discriminate. cbn [bind] in H.
+        destruct (index_value a w iv) as [[x t3]|] eqn:IX; try discriminate. inv H.
+        destruct (eval_var_inv _ _ _ _ Ep) as (ty & L & Ty & ->).
+        destruct (load_V _ _ _ _ _ _ _ _ _ R S1 L Ty IX) as (o & Ec & Hc).
+        rewrite Ec, (eval_C0 _ _ _ _ _ R S2 _ Ei). cbn [bind].
+        destruct Hc as [[t' ->]| ->]; cbn [bind]; [left; eauto|right; reflexivity].
+      + left. eexists. eapply (eval_C0 true cur a c); eauto.
+    - (* BooleanToInteger *)
+      cbn [eval] in *. destruct (eval a e) as [[x t1]|] eqn:E1; cbn [bind] in H; [|discriminate H].
+      destruct (IHe S _ _ eq_refl) as [[t' ->]| ->]; cbn [bind]; [|right; reflexivity].
+      destruct (as_bool x); cbn [bind] in *; [|discriminate H]. inv H. left. eauto.
+  Qed.
+
+
+  (** ** kept atomic statements *)
+
+  Hypothesis H_root : mem (r_root rl) (r_v rl) = true.
+
+  Definition OKF (x : err) : Prop := x = EOutOfBounds.
+
+  Lemma exec_declassign st x t e :
+    exec 1 (DeclarationAssignment (Declaration (Var x) t) e) st =
+    match eval_rhs st e with
+    | Err er => Fail er
+    | Ok (st1, v, t1) =>
+        match coerce t v with
+        | Err er => Fail er
+        | Ok v' => Normal (with_env st1 (set_var x (t, Some v') (env st1))) t1
+        end
+    end.
+  Proof. reflexivity. Qed.
+
+  Lemma exec_assign_var st x e :
+    exec 1 (Assignment (Var x) e) st =
+    match eval_rhs st e with
+    | Err er => Fail er
+    | Ok (st1, v, t1) =>
+        match lookup x (env st1) with
+        | Some (t, _) =>
+            match coerce t v with
+            | Ok v' => Normal (with_env st1 (set_var x (t, Some v') (env st1))) (t1 ++ [] ++ [])
+            | Err er => Fail er
+            end
+        | None => Fail EUnbound
+        end
+    end.
+  Proof.
+    simpl. destruct (eval_rhs st e) as [[[st1 v] t1]|]; auto.
+    destruct (lookup x (env st1)) as [[t o]|]; auto. unfold bind. destruct (coerce t v); auto.
+  Qed.
+
+  Lemma scalar_facts x : scalar_var rl x = true ->
+    mem x (r_ip rl) = false /\ mem x (r_fp rl) = false /\ mem x pars = false /\
+    mem x (r_os rl) = false /\ mem x (r_v rl) = false /\ inP x = false /\
+    String.eqb x (r_root rl) = false.
+  Proof.
+    unfold scalar_var. intros H. split_andb.
+    apply negb_true_iff in H, H0, H1. fold pars in H0.
+    assert (O : mem x (r_os rl) = false).
+    { destruct (mem x (r_os rl)) eqn:Q; auto. apply H_os in Q. congruence. }
+    assert (V : mem x (r_v rl) = false).
+    { destruct (mem x (r_v rl)) eqn:Q; auto. apply H_v in Q. congruence. }
+    repeat split; auto.
+    - unfold inP, ins_p, inv_p. now rewrite H1, H.
+    - destruct (String.eqb x (r_root rl)) eqn:Q; auto. apply String.eqb_eq in Q. subst. congruence.
+  Qed.
+
+  Lemma RC_set_scalar ph cur a c x t v both :
+    RC ph cur a c -> scalar_var rl x = true -> (both = false -> mem x U = true) ->
+    (both = true -> mem x U = false) ->
+    RC ph cur (with_env a (set_var x (t, Some v) (env a)))
+       (if both then with_env c (set_var x (t, Some v) (env c)) else c).
+  Proof.
+    intros R S B1 B2. destruct (scalar_facts x S) as (F1 & F2 & F3 & F4 & F5 & F6 & F7).
+    pose proof (RC_set ph cur a c x t v (if both then Some v else None) R F3) as X.
+    destruct both; apply X; try congruence; auto.
+    intros Rd. unfold rdC in Rd. rewrite (B1 eq_refl) in Rd. discriminate.
+  Qed.
+
+  Lemma sexp_not_alloc lv e : sexpC rl U lv e = true -> is_alloc e = false.
+  Proof. destruct e; simpl; auto; discriminate. Qed.
+
+  Lemma keep_scalar ph cur a c x e (decl : option ty) :
+    RC ph cur a c -> mem x U = false -> scalar_var rl x = true -> sexpC rl U false e = true ->
+    let s := match decl with Some t => DeclarationAssignment (Declaration (Var x) t) e
+                           | None => Assignment (Var x) e end in
+    osimK bool RCx OKF ph (exec 1 s a) (exec 1 s c).
+  Proof.
+    intros R Ux S Se s. pose proof (sexp_not_alloc _ _ Se) as NA.
+    destruct (scalar_facts x S) as (F1 & F2 & F3 & F4 & F5 & F6 & F7).
+    assert (Rd : rdC rl U x = true) by (unfold rdC; now rewrite Ux, F4, F5).
+    unfold s. destruct decl as [t|].
+    - rewrite !exec_declassign, !eval_rhs_pure by exact NA.
+      destruct (eval a e) as [[v t1]|] eqn:E; cbn [bind]; [|exact I].
+      rewrite (eval_C0 _ _ _ _ _ R Se _ E). cbn [bind].
+      destruct (coerce t v) as [v'|]; [|exact I]. simpl. exists cur.
+      apply (RC_set_scalar ph cur a c x t v' true R S); congruence.
+    - rewrite !exec_assign_var, !eval_rhs_pure by exact NA.
+      destruct (eval a e) as [[v t1]|] eqn:E; cbn [bind]; [|exact I].
+      rewrite (eval_C0 _ _ _ _ _ R Se _ E). cbn [bind].
+      rewrite <- (rc_env _ _ _ _ R x Rd).
+      destruct (lookup x (env a)) as [[t o]|]; [|exact I].
+      destruct (coerce t v) as [v'|]; [|exact I]. simpl. exists cur.
+      apply (RC_set_scalar ph cur a c x t v' true R S); congruence.
+  Qed.
+
+  Lemma keep_return ph cur a c e : RC ph cur a c -> sexpC rl U false e = true ->
+    osimK bool RCx OKF ph (exec 1 (Return e) a) (exec 1 (Return e) c).
+  Proof.
+    intros R Se. simpl. destruct (eval a e) as [[v t]|] eqn:E; [|exact I].
+    rewrite (eval_C0 _ _ _ _ _ R Se _ E). split; auto. exists ph, cur. exact R.
+  Qed.
+
+
+  (** ** reading a field of a tensor struct *)
+
+  Definition idx_expr (T : string) (k j : Z) : expr :=
+    ArrayIndex (ArrayIndex (AttributeAccess (Var T) "indices") (IntegerLiteral k)) (IntegerLiteral j).
+
+  Definition idx_facts (st : state) (T : string) (k j : Z) (v : value) : Prop :=
+    exists ty id k' j' ts p q,
+      lookup T (env st) = Some (ty, Some (VTensor id)) /\ typed ty (VTensor id) = true /\
+      chk32 k = Ok k' /\ chk32 j = Ok j' /\ PM.find id (tensors st) = Some ts /\
+      nthZ_opt (t_idx ts) k' = Some (p, q) /\ is_ptr p && is_ptr q = true /\
+      ((j' = 0 /\ v = p) \/ (j' = 1 /\ v = q)).
+
+  Lemma idx_eval_iff st T k j v :
+    (exists t, eval st (idx_expr T k j) = Ok (v, t)) <-> idx_facts st T k j v.
+  Proof.
+    unfold idx_expr, idx_facts. rewrite !eval_idx_unf, eval_attr_unf. cbn [eval]. split.
+    - intros [t H].
+      destruct (lookup T (env st)) as [[ty [w|]]|] eqn:L; try discriminate.
+      destruct (typed ty w) eqn:Ty; try discriminate. cbn [bind] in H.
+      destruct (attribute_value st w "indices") as [r|] eqn:AV; try discriminate. cbn [bind] in H.
+      unfold attribute_value in AV. destruct w as [z|f|b|blk off| |id|id|id|id l]; try discriminate.
+      simpl in AV. inv AV.
+      destruct (chk32 k) as [k'|] eqn:Ck; try discriminate. cbn [bind index_value] in H.
+      destruct (chk32 j) as [j'|] eqn:Cj; try discriminate. cbn [bind] in H.
+      unfold index_value, bind, tensor_of in H.
+      destruct (PM.find id (tensors st)) as [ts|] eqn:F; try discriminate.
+      destruct (nthZ_opt (t_idx ts) k') as [[p q]|] eqn:N; try discriminate.
+      destruct (negb (is_ptr p && is_ptr q)) eqn:P; try discriminate. apply negb_false_iff in P.
+      exists ty, id, k', j', ts, p, q. repeat split; auto.
+      destruct (j' =? 0) eqn:J0; [apply Z.eqb_eq in J0; inv H; auto|].
+      destruct (j' =? 1) eqn:J1; [apply Z.eqb_eq in J1; inv H; auto|discriminate].
+    - intros (ty & id & k' & j' & ts & p & q & L & Ty & Ck & Cj & F & N & P & J).
+      rewrite L, Ty. cbn [bind]. unfold attribute_value. simpl String.eqb. cbn [bind].
+      rewrite Ck. cbn [bind index_value]. rewrite Cj. cbn [bind].
+      unfold index_value, bind, tensor_of. rewrite F, N, P. cbn [negb].
+      destruct J as [[-> ->]|[-> ->]]; simpl; eauto.
+  Qed.
+
+  Definition vals_facts (st : state) (T : string) (v : value) : Prop :=
+    exists ty id ts,
+      lookup T (env st) = Some (ty, Some (VTensor id)) /\ typed ty (VTensor id) = true /\
+      PM.find id (tensors st) = Some ts /\ is_ptr (t_vals ts) = true /\ v = t_vals ts.
+
+  Lemma vals_eval_iff st T v :
+    (exists t, eval st (AttributeAccess (Var T) "vals") = Ok (v, t)) <-> vals_facts st T v.
+  Proof.
+    unfold vals_facts. rewrite eval_attr_unf. cbn [eval]. split.
+    - intros [t H].
+      destruct (lookup T (env st)) as [[ty [w|]]|] eqn:L; try discriminate.
+      destruct (typed ty w) eqn:Ty; try discriminate. cbn [bind] in H.
+      destruct (attribute_value st w "vals") as [r|] eqn:AV; try discriminate. cbn [bind] in H. inv H.
+      unfold attribute_value in AV. destruct w as [z|f|b|blk off| |id|id|id|id l]; try discriminate.
+      simpl in AV.
+      unfold bind, tensor_of in AV. destruct (PM.find id (tensors st)) as [ts|] eqn:F; try discriminate.
+      destruct (is_ptr (t_vals ts)) eqn:P; try discriminate. inv AV. exists ty, id, ts. auto.
+    - intros (ty & id & ts & L & Ty & F & P & ->). rewrite L, Ty. cbn [bind].
+      unfold attribute_value. simpl String.eqb. unfold bind, tensor_of. rewrite F, P. eauto.
+  Qed.
+
+  Lemma coerce_isptr t v w v' : is_ptr v = true -> is_ptr w = true -> coerce t v = Ok v' ->
+    v' = v /\ coerce t w = Ok w.
+  Proof.
+    destruct v; try discriminate; destruct w; try discriminate; intros _ _;
+      destruct t as [| | | | |t0| |]; simpl; try discriminate; destruct t0; simpl; try discriminate;
+      intros H; inv H; auto.
+  Qed.
+
+
+  Hypothesis H_pars : forall T, mem T pars = true -> rdC rl U T = true.
+
+  (** a declaration whose initialiser has the same pointer value in both runs *)
+  Lemma keep_decl_same ph cur a c x t e : RC ph cur a c -> is_alloc e = false ->
+    mem x pars = false -> mem x (r_v rl) = false ->
+    (forall v t1, eval a e = Ok (v, t1) ->
+       (exists t', eval c e = Ok (v, t')) /\ is_ptr v = true /\
+       (mem x (r_ip rl) = true -> ptr_int (heap a) v) /\
+       (mem x (r_fp rl) = true -> ptr_float (heap a) v) /\
+       (inP x = true -> inptr (heap a) v)) ->
+    osimK bool RCx OKF ph (exec 1 (DeclarationAssignment (Declaration (Var x) t) e) a)
+                          (exec 1 (DeclarationAssignment (Declaration (Var x) t) e) c).
+  Proof.
+    intros R NA Np Nv Hv. rewrite !exec_declassign, !eval_rhs_pure by exact NA.
+    destruct (eval a e) as [[v t1]|] eqn:E; cbn [bind]; [|exact I].
+    destruct (Hv _ _ eq_refl) as ([t' Ec] & Pv & Ti & Tf & Ip). rewrite Ec. cbn [bind].
+    destruct (coerce t v) as [v'|] eqn:C; [|exact I].
+    destruct (coerce_isptr _ _ _ _ Pv Pv C) as [-> _]. simpl. exists cur.
+    apply (RC_set ph cur a c x t v (Some v) R Np); auto; try congruence.
+    intros Q. apply String.eqb_eq in Q. subst. congruence.
+  Qed.
+
+  (** a declaration of a variable the kept statements never read as a scalar, whose initialiser
+      may have different pointer values in the two runs *)
+  Lemma keep_decl_diff ph cur a c x t e : RC ph cur a c -> is_alloc e = false ->
+    mem x pars = false -> rdC rl U x = false -> inP x = false ->
+    (forall vE t1, eval a e = Ok (vE, t1) ->
+       exists vC t', eval c e = Ok (vC, t') /\ is_ptr vE = true /\ is_ptr vC = true /\
+       (mem x (r_ip rl) = true -> ptr_int (heap a) vE) /\
+       (mem x (r_fp rl) = true -> ptr_float (heap a) vE) /\
+       (mem x (r_v rl) = true ->
+          exists o', vC = VPtr bV o' /\ (String.eqb x (r_root rl) = true -> o' = 0) /\
+                     vrel ph a cur vE o') /\
+       (String.eqb x (r_root rl) = true -> ph = true -> vE = VPtr cur 0)) ->
+    osimK bool RCx OKF ph (exec 1 (DeclarationAssignment (Declaration (Var x) t) e) a)
+                          (exec 1 (DeclarationAssignment (Declaration (Var x) t) e) c).
+  Proof.
+    intros R NA Np Nr Ni Hv. rewrite !exec_declassign, !eval_rhs_pure by exact NA.
+    destruct (eval a e) as [[vE t1]|] eqn:E; cbn [bind]; [|exact I].
+    destruct (Hv _ _ eq_refl) as (vC & t' & Ec & Pe & Pc & Ti & Tf & Vx & Rx). rewrite Ec. cbn [bind].
+    destruct (coerce t vE) as [v'|] eqn:C; [|exact I].
+    destruct (coerce_isptr _ _ _ _ Pe Pc C) as [-> Cc]. rewrite Cc. simpl. exists cur.
+    apply (RC_set ph cur a c x t vE (Some vC) R Np); auto; try congruence.
+    intros M. destruct (Vx M) as (o' & -> & X1 & X2). exists o'. simpl.
+    rewrite lookup_set_var, String.eqb_refl. auto.
+  Qed.
+
+  Lemma ins_id ph cur a c T ty id : RC ph cur a c -> mem T (r_ins rl) = true ->
+    lookup T (env a) = Some (ty, Some (VTensor id)) ->
+    id <> tout /\ lookup T (env c) = Some (ty, Some (VTensor id)).
+  Proof.
+    intros R M L. apply mem_In in M. destruct (rc_ins _ _ _ _ R T ty _ M L) as (id' & Q & N). inv Q.
+    split; auto. rewrite <- (rc_env _ _ _ _ R T); auto. apply H_pars. unfold pars. simpl.
+    apply mem_In in M. rewrite M. apply orb_true_r.
+  Qed.
+
+  Lemma keep_input_idx ph cur a c x t T k j : RC ph cur a c ->
+    mem x pars = false -> ins_p rl x = true -> mem T (r_ins rl) = true ->
+    osimK bool RCx OKF ph (exec 1 (DeclarationAssignment (Declaration (Var x) t) (idx_expr T k j)) a)
+                          (exec 1 (DeclarationAssignment (Declaration (Var x) t) (idx_expr T k j)) c).
+  Proof.
+    intros R Np Ix MT. unfold ins_p in Ix. apply andb_prop in Ix. destruct Ix as [I1 I2].
+    assert (Nv : mem x (r_v rl) = false).
+    { destruct (mem x (r_v rl)) eqn:Q; auto. apply H_v in Q. rewrite (H_disj _ I1) in Q. discriminate. }
+    apply (keep_decl_same ph cur a c); auto. intros v t1 E.
+    destruct (proj1 (idx_eval_iff a T k j v) (ex_intro _ t1 E))
+      as (ty & id & k' & j' & ts & p & q & L & Ty & Ck & Cj & F & N & P & J).
+    destruct (ins_id _ _ _ _ _ _ _ R MT L) as [Nid Lc].
+    destruct (rc_tn _ _ _ _ R id Nid) as [Qt Qi]. destruct (Qi ts F) as [_ Qi2].
+    pose proof (nthZ_opt_In _ _ _ N) as In. destruct (Qi2 _ _ In) as [Ip Iq].
+    destruct (proj2 (ty_tn _ _ (rc_ty _ _ _ _ R) id ts F) _ _ In) as [Tp Tq].
+    apply andb_prop in P. destruct P as [Pp Pq].
+    split.
+    { apply (proj2 (idx_eval_iff c T k j v)). exists ty, id, k', j', ts, p, q.
+      rewrite <- Qt. repeat split; auto. now rewrite Pp, Pq. }
+    destruct J as [[-> ->]|[-> ->]]; repeat split; auto; intros Q; rewrite (H_disj _ I1) in Q; discriminate.
+  Qed.
+
+  Lemma keep_input_vals ph cur a c x t T : RC ph cur a c ->
+    mem x pars = false -> inv_p rl x = true -> mem T (r_ins rl) = true ->
+    osimK bool RCx OKF ph
+      (exec 1 (DeclarationAssignment (Declaration (Var x) t) (AttributeAccess (Var T) "vals")) a)
+      (exec 1 (DeclarationAssignment (Declaration (Var x) t) (AttributeAccess (Var T) "vals")) c).
+  Proof.
+    intros R Np Ix MT. unfold inv_p in Ix. apply andb_prop in Ix. destruct Ix as [I1 I2].
+    apply negb_true_iff in I2.
+    apply (keep_decl_same ph cur a c); auto. intros v t1 E.
+    destruct (proj1 (vals_eval_iff a T v) (ex_intro _ t1 E)) as (ty & id & ts & L & Ty & F & P & ->).
+    destruct (ins_id _ _ _ _ _ _ _ R MT L) as [Nid Lc].
+    destruct (rc_tn _ _ _ _ R id Nid) as [Qt Qi]. destruct (Qi ts F) as [Qv _].
+    pose proof (proj1 (ty_tn _ _ (rc_ty _ _ _ _ R) id ts F)) as Tv.
+    split.
+    { apply (proj2 (vals_eval_iff c T (t_vals ts))). exists ty, id, ts. rewrite <- Qt. auto. }
+    repeat split; auto. intros Q. destruct (mem x (r_ip rl)) eqn:Q2; try discriminate.
+    rewrite (H_disj _ Q2) in I1. discriminate.
+  Qed.
+
+
+  Lemma nthZ_opt_len {A B} (l : list A) (l' : list B) i x : List.length l = List.length l' ->
+    nthZ_opt l i = Some x -> exists y, nthZ_opt l' i = Some y.
+  Proof.
+    unfold nthZ_opt. destruct (i <? 0); try discriminate. intros Le H.
+    assert (Z.to_nat i < List.length l)%nat by (apply nth_error_Some; congruence).
+    destruct (nth_error l' (Z.to_nat i)) eqn:Q; eauto. apply nth_error_None in Q. lia.
+  Qed.
+
+  Lemma out_id ph cur a c ty id : RC ph cur a c ->
+    lookup (r_out rl) (env a) = Some (ty, Some (VTensor id)) -> id = tout /\ ty = TPointer TTensor.
+  Proof. intros R L. destruct (rc_out _ _ _ _ R) as [Q _]. rewrite Q in L. inv L. auto. Qed.
+
+  Lemma keep_os_unpack ph cur a c x t k j : RC ph cur a c ->
+    mem x pars = false -> mem x (r_os rl) = true ->
+    osimK bool RCx OKF ph
+      (exec 1 (DeclarationAssignment (Declaration (Var x) t) (idx_expr (r_out rl) k j)) a)
+      (exec 1 (DeclarationAssignment (Declaration (Var x) t) (idx_expr (r_out rl) k j)) c).
+  Proof.
+    intros R Np Ox. pose proof (H_os _ Ox) as Ix. pose proof (os_not_fp _ Ox) as Fx.
+    assert (Nv : mem x (r_v rl) = false).
+    { destruct (mem x (r_v rl)) eqn:Q; auto. apply H_v in Q. congruence. }
+    assert (Nr : String.eqb x (r_root rl) = false).
+    { destruct (String.eqb x (r_root rl)) eqn:Q; auto. apply String.eqb_eq in Q. subst. congruence. }
+    apply (keep_decl_diff ph cur a c); auto.
+    - unfold rdC. now rewrite Ox, andb_false_r.
+    - unfold inP, ins_p, inv_p. now rewrite Ox, Fx, andb_false_r.
+    - intros vE t1 E.
+      destruct (proj1 (idx_eval_iff a _ k j vE) (ex_intro _ t1 E))
+        as (ty & id & k' & j' & ts & p & q & L & Ty & Ck & Cj & F & N & P & J).
+      destruct (out_id _ _ _ _ _ _ R L) as [-> ->].
+      destruct (rc_tout _ _ _ _ R) as (tsa & tsc & F1 & F2 & D & Len & Pc & Vc & _).
+      rewrite F1 in F. inv F.
+      destruct (nthZ_opt_len _ (t_idx tsc) _ _ Len N) as [[p' q'] N'].
+      pose proof (Pc _ _ (nthZ_opt_In _ _ _ N')) as P'.
+      pose proof (nthZ_opt_In _ _ _ N) as In.
+      destruct (proj2 (ty_tn _ _ (rc_ty _ _ _ _ R) tout ts F1) _ _ In) as [Tp Tq].
+      exists (if j' =? 0 then p' else q').
+      assert (Ec : exists t', eval c (idx_expr (r_out rl) k j) = Ok (if j' =? 0 then p' else q', t')).
+      { apply (proj2 (idx_eval_iff c _ k j _)). exists (TPointer TTensor), tout, k', j', tsc, p', q'.
+        repeat split; auto; try exact (proj2 (rc_out _ _ _ _ R)).
+        destruct J as [[-> _]|[-> _]]; simpl; auto. }
+      destruct Ec as [t' Ec]. exists t'. split; [exact Ec|].
+      apply andb_prop in P. destruct P as [Pp Pq]. apply andb_prop in P'. destruct P' as [Pp' Pq'].
+      destruct J as [[-> ->]|[-> ->]]; simpl; repeat split; auto; congruence.
+  Qed.
+
+  Lemma keep_root_unpack cur a c t : RC false cur a c ->
+    mem (r_root rl) pars = false ->
+    osimK bool RCx OKF false
+      (exec 1 (DeclarationAssignment (Declaration (Var (r_root rl)) t) (AttributeAccess (Var (r_out rl)) "vals")) a)
+      (exec 1 (DeclarationAssignment (Declaration (Var (r_root rl)) t) (AttributeAccess (Var (r_out rl)) "vals")) c).
+  Proof.
+    intros R Np. pose proof (v_not_ip _ H_root) as Ix.
+    apply (keep_decl_diff false cur a c); auto.
+    - unfold rdC. now rewrite H_root, andb_false_r.
+    - unfold inP, ins_p, inv_p. now rewrite Ix, H_root, andb_false_r.
+    - intros vE t1 E.
+      destruct (proj1 (vals_eval_iff a _ vE) (ex_intro _ t1 E)) as (ty & id & ts & L & Ty & F & P & ->).
+      destruct (out_id _ _ _ _ _ _ R L) as [-> ->].
+      destruct (rc_tout _ _ _ _ R) as (tsa & tsc & F1 & F2 & D & Len & Pc & Vc & Vn).
+      rewrite F1 in F. inv F. unfold vrel in Vn. rewrite Vn.
+      exists (VPtr bV 0).
+      assert (Ec : exists t', eval c (AttributeAccess (Var (r_out rl)) "vals") = Ok (VPtr bV 0, t')).
+      { apply (proj2 (vals_eval_iff c _ _)). exists (TPointer TTensor), tout, tsc.
+        repeat split; auto; try exact (proj2 (rc_out _ _ _ _ R)). now rewrite Vc. }
+      destruct Ec as [t' Ec]. exists t'. split; [exact Ec|]. simpl. repeat split; auto; try congruence.
+      intros _. exists 0. simpl. auto.
+  Qed.
+
+  Lemma typed_null_ptr t b o : typed t VNull = true -> typed t (VPtr b o) = true.
+  Proof. destruct t as [| | | | |t0| |]; simpl; try discriminate. destruct t0; auto. Qed.
+
+  Lemma v_var_eval cur a c z vE t1 : RC true cur a c -> mem z (r_v rl) = true ->
+    eval a (Var z) = Ok (vE, t1) ->
+    exists oz, eval c (Var z) = Ok (VPtr bV oz, []) /\ vrel true a cur vE oz /\ is_ptr vE = true /\
+               ptr_float (heap a) vE.
+  Proof.
+    intros R M E. destruct (eval_var_inv _ _ _ _ E) as (ty & L & Ty & ->).
+    destruct (rc_v _ _ _ _ R z ty (Some vE) M L) as (oz & Lc & _ & Vr). specialize (Vr vE eq_refl).
+    exists oz. split; [|split; [exact Vr|split]].
+    - cbn [eval]. rewrite Lc. unfold vrel in Vr. destruct Vr as [->|(b & o & -> & _)].
+      + now rewrite (typed_null_ptr _ bV oz Ty).
+      + now rewrite (typed_ptr_any _ _ _ bV oz Ty).
+    - unfold vrel in Vr. destruct Vr as [->|(b & o & -> & _)]; reflexivity.
+    - exact (ty_fp _ _ (rc_ty _ _ _ _ R) z ty vE (H_v _ M) L).
+  Qed.
+
+  Lemma keep_bucket cur a c x t e : RC true cur a c ->
+    mem x pars = false -> mem x (r_v rl) = true -> String.eqb x (r_root rl) = false ->
+    match e with
+    | Var z => mem z (r_v rl)
+    | Add (Var z) i => mem z (r_v rl) && sexpC rl U false i
+    | _ => false
+    end = true ->
+    osimK bool RCx OKF true (exec 1 (DeclarationAssignment (Declaration (Var x) t) e) a)
+                            (exec 1 (DeclarationAssignment (Declaration (Var x) t) e) c).
+  Proof.
+    intros R Np Vx Nr He. pose proof (v_not_ip _ Vx) as Ix.
+    assert (NA : is_alloc e = false).
+    { destruct e; try discriminate; reflexivity. }
+    apply (keep_decl_diff true cur a c); auto.
+    - unfold rdC. now rewrite Vx, andb_false_r.
+    - unfold inP, ins_p, inv_p. now rewrite Ix, Vx, andb_false_r.
+    - intros vE t1 E. destruct e; try discriminate.
+      + (* copy *)
+        destruct (v_var_eval _ _ _ _ _ _ R He E) as (oz & Ec & Vr & Pe & Tf).
+        exists (VPtr bV oz), []. repeat split; auto; try congruence.
+        intros _. exists oz. repeat split; auto. congruence.
+      + (* pointer arithmetic *)
+        destruct e1; try discriminate. apply andb_prop in He. destruct He as [Mz Si].
+        cbn [eval] in E. apply bin2_inv in E. destruct E as (w & t2 & iv & t3 & E1 & E2 & OP).
+        destruct (v_var_eval _ _ _ _ _ _ R Mz E1) as (oz & Ec & Vr & Pe & Tf).
+        pose proof (eval_C0 _ _ _ _ _ R Si _ E2) as Ei.
+        unfold vrel in Vr. destruct Vr as [->|(b & o & -> & Vr)]; [destruct iv; discriminate|].
+        destruct iv; try discriminate. simpl in OP. inv OP.
+        exists (VPtr bV (oz + z)), ([] ++ t3).
+        change (eval c (Add (Var name) e2)) with (bin2 (arith Z.add fadd true) (eval c (Var name)) (eval c e2)).
+        unfold bin2. rewrite Ec, Ei. cbn [bind arith].
+        repeat split; auto; try congruence.
+        intros _. exists (oz + z). repeat split; auto; try congruence.
+        unfold vrel. right. exists b, (o + z). split; auto. destruct Vr as [[-> ->]|D]; auto.
+  Qed.
+
+
+  (** ** the value store *)
+
+  Lemma store_both cur a c o n v a1 : RC true cur a c ->
+    store a cur (o + n) v = Ok a1 ->
+    (exists c1, store c bV (o + n) v = Ok c1 /\ RC true cur a1 c1) \/
+    store c bV (o + n) v = Err EOutOfBounds.
+  Proof.
+    intros R S. destruct (rc_cur _ _ _ _ R eq_refl) as [Cr (be & bc & Fe & Le & Fle & Ie & Fc & Sub)].
+    destruct (rc_bv _ _ _ _ R) as (bc' & Fc' & Lc & Flc & Ic). rewrite Fc in Fc'. inv Fc'.
+    unfold store in *. rewrite Fe, Le, Ie, Fle in S. rewrite Fc, Lc, Ic, Flc. cbn [negb] in *.
+    destruct ((o + n <? 0) || (b_len be <=? o + n)); try discriminate.
+    destruct ((o + n <? 0) || (b_len bc' <=? o + n)); [right; reflexivity|].
+    unfold bind in *. destruct (coerce TFloat v) as [v'|]; try discriminate. inv S.
+    left. eexists. split; [reflexivity|].
+    set (be' := mkBlock true (b_len be) (PM.add (key (o + n)) v' (b_cells be)) true false).
+    set (bc2 := mkBlock true (b_len bc') (PM.add (key (o + n)) v' (b_cells bc')) true false).
+    assert (X1 : forall b blk, PM.find b (heap a) = Some blk -> b_input blk = true ->
+                   PM.find b (PM.add cur be' (heap a)) = Some blk).
+    { intros b blk F In. rewrite PM.gso; auto. intros ->. rewrite Fe in F. inv F. congruence. }
+    assert (X3 : forall b, dead (heap a) b -> dead (PM.add cur be' (heap a)) b).
+    { intros b (blk & F & D). exists blk. split; auto. rewrite PM.gso; auto. intros ->.
+      rewrite Fe in F. inv F. congruence. }
+    destruct R as [T E Ip Ih Ro Ri Tn To Bv Vv Cu]. constructor; simpl; auto.
+    - apply (TY_heap rl a); auto.
+      + apply hext_add. intros old F. rewrite Fe in F. inv F. simpl. auto.
+      + intros k L. rewrite PM.gso. apply (ty_fresh _ _ T k L).
+        intros ->. rewrite (ty_fresh _ _ T cur L) in Fe. discriminate.
+    - intros x t w I L. eapply inptr_mono; eauto.
+    - intros b blk F In. destruct (Pos.eq_dec b cur) as [->|N].
+      + rewrite PM.gss in F. inv F. discriminate.
+      + rewrite PM.gso in F by exact N. pose proof (Ih _ _ F In) as Fb. rewrite PM.gso; auto.
+        intros ->. rewrite Fc in Fb. inv Fb. congruence.
+    - intros t Nt. destruct (Tn t Nt) as [Q1 Q2]. split; auto. intros ts F. destruct (Q2 ts F) as [Q3 Q4].
+      split; [eapply inptr_mono; eauto|]. intros p q I. destruct (Q4 p q I). split; eapply inptr_mono; eauto.
+    - destruct To as (tsa & tsc & Q1 & Q2 & Q3 & Q4 & Q5 & Q6 & Q7). exists tsa, tsc. repeat split; auto.
+      apply (vrel_mono true a (with_heap a (PM.add cur be' (heap a)))); [exact X3|exact Q7].
+    - exists bc2. rewrite PM.gss. auto.
+    - intros x t ov M L. destruct (Vv x t ov M L) as (o' & L1 & L2 & L3). exists o'. split; auto. split; auto.
+      intros vE Q. apply (vrel_mono true a (with_heap a (PM.add cur be' (heap a)))); [exact X3|eauto].
+    - intros _. constructor; simpl; auto. exists be', bc2. rewrite !PM.gss. repeat split; auto.
+      intros k v0 Lk F. simpl in *. destruct (Pos.eq_dec k (key (o + n))) as [->|N].
+      + rewrite PM.gss in *. exact F.
+      + rewrite PM.gso in * by exact N. auto.
+  Qed.
+
+  Lemma keep_store cur a c y i e : RC true cur a c ->
+    mem y (r_v rl) = true -> sexpC rl U false i = true -> sexpC rl U true e = true ->
+    osimK bool RCx OKF true (exec 1 (Assignment (ArrayIndex (Var y) i) e) a)
+                            (exec 1 (Assignment (ArrayIndex (Var y) i) e) c).
+  Proof.
+    intros R My Si Se. pose proof (sexp_not_alloc _ _ Se) as NA.
+    cbn [exec]. rewrite !eval_rhs_pure by exact NA.
+    destruct (eval a e) as [[v t1]|] eqn:E; cbn [bind]; [|exact I].
+    assert (FK : forall o, osimK bool RCx OKF true o (Fail EOutOfBounds)).
+    { intros o. destruct o; simpl; auto; reflexivity. }
+    destruct (eval_C1 _ _ _ _ R Se _ _ E) as [[t' Ec]|Ec]; rewrite Ec; cbn [bind]; [|apply FK].
+    unfold eval_loc.
+    destruct (eval a (Var y)) as [[w t2]|] eqn:Ey; cbn [bind]; [|exact I].
+    destruct (eval a i) as [[iv t3]|] eqn:Ei; cbn [bind]; [|exact I].
+    destruct (v_var_eval _ _ _ _ _ _ R My Ey) as (oy & Eyc & Vr & Pw & _).
+    rewrite Eyc, (eval_C0 _ _ _ _ _ R Si _ Ei). cbn [bind].
+    unfold vrel in Vr. destruct Vr as [->|(b & o & -> & Vr)]; [exact I|].
+    destruct iv; try exact I. unfold assign, bind.
+    destruct (store a b (o + z) v) as [a1|] eqn:S; [|exact I].
+    destruct Vr as [[-> ->]|(bk & F & D)].
+    2:{ unfold store in S. rewrite F, D in S. discriminate. }
+    destruct (store_both _ _ _ _ _ _ _ R S) as [(c1 & Sc & R1)| Sc]; rewrite Sc; [|apply FK].
+    simpl. exists cur. exact R1.
+  Qed.
+
+
+  (** ** dropped atomic statements: only the evaluate side moves *)
+
+  Lemma drop_scalar ph cur a c x e (decl : option ty) :
+    RC ph cur a c -> mem x U = true -> scalar_var rl x = true -> is_alloc e = false ->
+    let s := match decl with Some t => DeclarationAssignment (Declaration (Var x) t) e
+                           | None => Assignment (Var x) e end in
+    odrop bool RCx ph (exec 1 s a) c.
+  Proof.
+    intros R Ux S NA s. unfold s. destruct decl as [t|].
+    - rewrite exec_declassign, eval_rhs_pure by exact NA.
+      destruct (eval a e) as [[v t1]|]; cbn [bind]; [|exact I].
+      destruct (coerce t v) as [v'|]; [|exact I]. simpl. exists cur.
+      apply (RC_set_scalar ph cur a c x t v' false R S); congruence.
+    - rewrite exec_assign_var, eval_rhs_pure by exact NA.
+      destruct (eval a e) as [[v t1]|]; cbn [bind]; [|exact I].
+      destruct (lookup x (env a)) as [[t o]|]; [|exact I].
+      destruct (coerce t v) as [v'|]; [|exact I]. simpl. exists cur.
+      apply (RC_set_scalar ph cur a c x t v' false R S); congruence.
+  Qed.
+
+  Lemma cur_float ph cur a c b : RC ph cur a c -> ph = true -> isint (heap a) b -> b <> cur.
+  Proof.
+    intros R P (blk & F & Fl) ->. destruct (rc_cur _ _ _ _ R P) as [_ (be & bc & Fe & _ & Fle & _)].
+    rewrite Fe in F. inv F. congruence.
+  Qed.
+
+  Lemma store_A ph cur a c b off v a1 : RC ph cur a c -> isint (heap a) b ->
+    store a b off v = Ok a1 -> RC ph cur a1 c /\ env a1 = env a.
+  Proof.
+    intros R Ib S. pose proof Ib as (blk & F & Fl). unfold store in S. rewrite F in S.
+    destruct (negb (b_live blk)) eqn:Lv; try discriminate. destruct (b_input blk) eqn:Inp; try discriminate.
+    destruct (_ || _); try discriminate. unfold bind in S. destruct (coerce _ v) as [v'|]; try discriminate.
+    inv S. split; [|reflexivity]. apply negb_false_iff in Lv.
+    eapply RC_heapA; eauto; simpl.
+    - apply (TY_heap rl a); [exact (rc_ty _ _ _ _ R)| |].
+      + apply hext_add. intros old F0. rewrite F in F0. inv F0. reflexivity.
+      + intros k L. rewrite PM.gso. apply (ty_fresh _ _ (rc_ty _ _ _ _ R) k L).
+        intros ->. rewrite (ty_fresh _ _ (rc_ty _ _ _ _ R) b L) in F. discriminate.
+    - intros k bk Fk In. rewrite PM.gso; auto. intros ->. rewrite F in Fk. inv Fk. congruence.
+    - intros k bk Fk In. destruct (Pos.eq_dec k b) as [->|N].
+      + rewrite PM.gss in Fk. inv Fk. discriminate.
+      + now rewrite PM.gso in Fk.
+    - intros k (bk & Fk & D). exists bk. split; auto. rewrite PM.gso; auto. intros ->.
+      rewrite F in Fk. inv Fk. congruence.
+    - intros P. rewrite PM.gso; auto. intros Q. symmetry in Q. revert Q. eapply cur_float; eauto.
+  Qed.
+
+  Lemma alloc_A ph cur a c t n a1 v tr : RC ph cur a c -> alloc a t n = Ok (a1, v, tr) ->
+    RC ph cur a1 c /\ env a1 = env a /\ v = VPtr (next_blk a) 0 /\
+    exists blk, PM.find (next_blk a) (heap a1) = Some blk /\ b_live blk = true /\ b_input blk = false /\
+                b_cells blk = PM.empty value /\
+                (t = TInteger -> b_float blk = false) /\ (t = TFloat -> b_float blk = true).
+  Proof.
+    intros R A. unfold alloc, bind in A. destruct (elt_is_float t) as [fl|] eqn:EF; try discriminate.
+    destruct (n <? 0); try discriminate. inv A. pose proof (rc_ty _ _ _ _ R) as T.
+    assert (Fr : PM.find (next_blk a) (heap a) = None) by (apply (ty_fresh _ _ T); lia).
+    split; [|split; [reflexivity|split; [reflexivity|]]].
+    - eapply RC_heapA; eauto; simpl.
+      + apply (TY_heap rl a); auto.
+        * apply hext_add. intros old F. rewrite Fr in F. discriminate.
+        * intros k L. rewrite PM.gso by lia. apply (ty_fresh _ _ T). lia.
+      + intros k bk Fk In. rewrite PM.gso; auto. intros ->. congruence.
+      + intros k bk Fk In. destruct (Pos.eq_dec k (next_blk a)) as [->|N].
+        * rewrite PM.gss in Fk. inv Fk. discriminate.
+        * now rewrite PM.gso in Fk.
+      + intros k (bk & Fk & D). exists bk. split; auto. rewrite PM.gso; auto. intros ->. congruence.
+      + intros P. rewrite PM.gso; auto. intros Q.
+        destruct (rc_cur _ _ _ _ R P) as [_ (be & bc & Fe & _)]. rewrite Q in Fe. congruence.
+    - simpl. eexists. rewrite PM.gss. split; [reflexivity|]. simpl. repeat split; auto.
+      + intros ->. simpl in EF. now inv EF.
+      + intros ->. simpl in EF. now inv EF.
+  Qed.
+
+  Lemma realloc_A ph cur a c w t n a1 v tr : RC ph cur a c -> ptr_int (heap a) w ->
+    realloc a w t n = Ok (a1, v, tr) ->
+    RC ph cur a1 c /\ env a1 = env a /\ v = VPtr (next_blk a) 0 /\
+    (t = TInteger -> ptr_int (heap a1) v) /\ (t = TFloat -> ptr_float (heap a1) v).
+  Proof.
+    intros R Pw A. pose proof (rc_ty _ _ _ _ R) as T.
+    assert (Fr : PM.find (next_blk a) (heap a) = None) by (apply (ty_fresh _ _ T); lia).
+    unfold realloc in A. unfold bind at 1 in A. destruct (elt_is_float t) as [fl|] eqn:EF; try discriminate.
+    destruct (n <? 0) eqn:Nn; try discriminate.
+    destruct w; try discriminate.
+    2:{ assert (A' : alloc a t n = Ok (a1, v, tr)) by exact A.
+        destruct (alloc_A _ _ _ _ _ _ _ _ _ R A') as (R1 & E1 & -> & blk & F & _ & _ & _ & Fi & Ff).
+        split; auto. split; auto. split; auto. split; intros Q; simpl; eexists; split; eauto. }
+    destruct off; try discriminate. simpl in Pw. destruct Pw as (ob & Fo & Flo).
+    rewrite Fo in A. destruct (negb (b_live ob)) eqn:Lv; try discriminate.
+    destruct (b_input ob) eqn:Inp; try discriminate.
+    destruct (negb (Bool.eqb fl (b_float ob))) eqn:Q; try discriminate. inv A.
+    apply negb_false_iff in Lv. apply negb_false_iff in Q. apply Bool.eqb_prop in Q. subst fl.
+    assert (Nb : blk <> next_blk a) by (intros ->; congruence).
+    split; [|split; [reflexivity|split; [reflexivity|]]].
+    - eapply RC_heapA; eauto; simpl.
+      + apply (TY_heap rl a); auto.
+        * apply (hext_trans _ (PM.add blk (mkBlock (b_float ob) (b_len ob) (b_cells ob) false false) (heap a))).
+          -- apply hext_add. intros old F. rewrite Fo in F. inv F. reflexivity.
+          -- apply hext_add. intros old F. rewrite PM.gso in F by auto. congruence.
+        * intros k L. rewrite PM.gso by lia. rewrite PM.gso. apply (ty_fresh _ _ T). lia.
+          intros ->. rewrite (ty_fresh _ _ T blk) in Fo; [discriminate|lia].
+      + intros k bk Fk In. rewrite PM.gso, PM.gso; auto; intros ->; congruence.
+      + intros k bk Fk In. destruct (Pos.eq_dec k (next_blk a)) as [->|N1].
+        * rewrite PM.gss in Fk. inv Fk. discriminate.
+        * rewrite PM.gso in Fk by exact N1. destruct (Pos.eq_dec k blk) as [->|N2].
+          -- rewrite PM.gss in Fk. inv Fk. discriminate.
+          -- now rewrite PM.gso in Fk.
+      + intros k (bk & Fk & D). destruct (Pos.eq_dec k blk) as [->|N2].
+        * eexists. rewrite PM.gso, PM.gss by auto. split; reflexivity.
+        * exists bk. split; auto. rewrite PM.gso, PM.gso; auto. intros ->. congruence.
+      + intros P. assert (blk <> cur).
+        { eapply cur_float; eauto. exists ob. auto. }
+        rewrite PM.gso, PM.gso; auto. intros Q.
+        destruct (rc_cur _ _ _ _ R P) as [_ (be & bc & Fe & _)]. rewrite Q in Fe. congruence.
+    - simpl. split; intros ->; simpl in EF; inv EF; eexists; rewrite PM.gss; split; try reflexivity; simpl; congruence.
+  Qed.
+
+
+  Lemma bind_os ph cur a1 c x v t v' : RC ph cur a1 c -> mem x (r_os rl) = true ->
+    mem x pars = false -> ptr_int (heap a1) v -> is_ptr v = true -> coerce t v = Ok v' ->
+    RC ph cur (with_env a1 (set_var x (t, Some v') (env a1))) c.
+  Proof.
+    intros R Ox Np Pv Ip C. destruct (coerce_isptr _ _ _ _ Ip Ip C) as [-> _].
+    pose proof (H_os _ Ox) as Ix. pose proof (os_not_fp _ Ox) as Fx.
+    assert (Nv : mem x (r_v rl) = false).
+    { destruct (mem x (r_v rl)) eqn:Q; auto. apply H_v in Q. congruence. }
+    apply (RC_set ph cur a1 c x t v None R Np); auto; try congruence.
+    - unfold rdC. rewrite Ox, andb_false_r. discriminate.
+    - unfold inP, ins_p, inv_p. rewrite Ox, Fx, andb_false_r. discriminate.
+    - intros Q. apply String.eqb_eq in Q. subst. congruence.
+  Qed.
+
+  Lemma bind_root_up cur a1 c nb blk t ov v' : RC false cur a1 c ->
+    PM.find nb (heap a1) = Some blk -> b_live blk = true -> b_input blk = false ->
+    b_float blk = true -> b_cells blk = PM.empty value ->
+    lookup (r_root rl) (env a1) = Some (t, ov) -> mem (r_root rl) pars = false ->
+    coerce t (VPtr nb 0) = Ok v' ->
+    RC true nb (with_env a1 (set_var (r_root rl) (t, Some v') (env a1))) c.
+  Proof.
+    intros R F Lv Inp Fl Ce L Np C. destruct (coerce_isptr _ (VPtr _ 0) (VPtr 1%positive 0) _ eq_refl eq_refl C) as [-> _].
+    assert (Npo : String.eqb (r_out rl) (r_root rl) = false).
+    { unfold pars in Np. simpl in Np. apply orb_false_iff in Np. destruct Np as [Np _].
+      now rewrite String.eqb_sym. }
+    assert (Npi : forall T, In T (r_ins rl) -> String.eqb T (r_root rl) = false).
+    { intros T I. destruct (String.eqb T (r_root rl)) eqn:Q; auto. apply String.eqb_eq in Q. subst.
+      unfold pars in Np. simpl in Np. apply orb_false_iff in Np. destruct Np as [_ Np].
+      apply mem_false_In in Np. contradiction. }
+    pose proof (v_not_ip _ H_root) as Ix.
+    destruct (rc_v _ _ _ _ R _ _ _ H_root L) as (o0 & Lc0 & Z0 & _). rewrite (Z0 (String.eqb_refl _)) in Lc0.
+    destruct (rc_bv _ _ _ _ R) as (bc & Fc & Lc & Flc & Ic).
+    destruct R as [T E Ip Ih Ro Ri Tn To Bv Vv Cu]. constructor; simpl; auto.
+    - apply TY_set_var; auto.
+      + congruence.
+      + intros _. exists blk. auto.
+    - intros y Rd. rewrite lookup_set_var. destruct (String.eqb y (r_root rl)) eqn:Q; auto.
+      apply String.eqb_eq in Q. subst. unfold rdC in Rd. rewrite H_root, andb_false_r in Rd. discriminate.
+    - intros y t0 v0 I L0. rewrite lookup_set_var in L0. destruct (String.eqb y (r_root rl)) eqn:Q; eauto.
+      apply String.eqb_eq in Q. subst. unfold inP, ins_p, inv_p in I. rewrite Ix, H_root, andb_false_r in I.
+      discriminate.
+    - rewrite lookup_set_var, Npo. exact Ro.
+    - intros T0 t0 ov0 I L0. rewrite lookup_set_var, (Npi _ I) in L0. eauto.
+    - destruct To as (tsa & tsc & Q1 & Q2 & Q3 & Q4 & Q5 & Q6 & Q7). exists tsa, tsc. repeat split; auto.
+    - intros y t0 ov0 M L0. rewrite lookup_set_var in L0. destruct (String.eqb y (r_root rl)) eqn:Q.
+      + apply String.eqb_eq in Q. subst. inv L0. exists 0. repeat split; auto.
+        intros vE QE. inv QE. unfold vrel. right. exists nb, 0. auto.
+      + destruct (Vv y t0 ov0 M L0) as (o' & L1 & L2 & L3). exists o'. split; auto. split; [congruence|].
+        intros vE QE. specialize (L3 vE QE). unfold vrel in *. left. exact L3.
+    - intros _. constructor; simpl.
+      + rewrite lookup_set_var, String.eqb_refl. eauto.
+      + exists blk, bc. repeat split; auto. intros k v0 _ Fk. rewrite Ce, PM.gempty in Fk. discriminate.
+  Qed.
+
+  Lemma realloc_root cur a c t n a1 v tr ty ov v' : RC true cur a c ->
+    realloc a (VPtr cur 0) t n = Ok (a1, v, tr) ->
+    lookup (r_root rl) (env a) = Some (ty, ov) -> mem (r_root rl) pars = false ->
+    coerce ty v = Ok v' ->
+    RC true (next_blk a) (with_env a1 (set_var (r_root rl) (ty, Some v') (env a1))) c.
+  Proof.
+    intros R A L Np C. pose proof (rc_ty _ _ _ _ R) as T.
+    destruct (rc_cur _ _ _ _ R eq_refl) as [_ (be & bc & Fe & Le & Fle & Ie & Fc & Sub)].
+    assert (Fr : PM.find (next_blk a) (heap a) = None) by (apply (ty_fresh _ _ T); lia).
+    assert (Nb : cur <> next_blk a) by (intros Q; rewrite Q in Fe; congruence).
+    unfold realloc in A. unfold bind at 1 in A. destruct (elt_is_float t) as [fl|] eqn:EF; try discriminate.
+    destruct (n <? 0) eqn:Nn; try discriminate. rewrite Fe, Le, Ie, Fle in A. cbn [negb] in A.
+    destruct (negb (Bool.eqb fl true)) eqn:Q; try discriminate. inv A.
+    apply negb_false_iff in Q. apply Bool.eqb_prop in Q. subst fl.
+    destruct (coerce_isptr _ (VPtr _ 0) (VPtr 1%positive 0) _ eq_refl eq_refl C) as [-> _].
+    set (nb := next_blk a) in *.
+    set (dblk := mkBlock true (b_len be) (b_cells be) false false).
+    set (nblk := mkBlock true n (keep_prefix n (b_cells be)) true false).
+    set (h' := PM.add nb nblk (PM.add cur dblk (heap a))).
+    assert (Npo : String.eqb (r_out rl) (r_root rl) = false).
+    { unfold pars in Np. simpl in Np. apply orb_false_iff in Np. destruct Np as [Np _].
+      now rewrite String.eqb_sym. }
+    assert (Npi : forall T0, In T0 (r_ins rl) -> String.eqb T0 (r_root rl) = false).
+    { intros T0 I. destruct (String.eqb T0 (r_root rl)) eqn:Q; auto. apply String.eqb_eq in Q. subst.
+      unfold pars in Np. simpl in Np. apply orb_false_iff in Np. destruct Np as [_ Np].
+      apply mem_false_In in Np. contradiction. }
+    pose proof (v_not_ip _ H_root) as Ix.
+    assert (X1 : forall b blk, PM.find b (heap a) = Some blk -> b_input blk = true -> PM.find b h' = Some blk).
+    { intros b blk F In. unfold h'. rewrite PM.gso, PM.gso; auto; intros ->; congruence. }
+    assert (X3 : forall b, dead (heap a) b \/ b = cur -> dead h' b).
+    { intros b [(blk & F & D)| ->].
+      - destruct (Pos.eq_dec b cur) as [->|N2].
+        + exists dblk. unfold h'. rewrite PM.gso, PM.gss by auto. auto.
+        + exists blk. split; auto. unfold h'. rewrite PM.gso, PM.gso; auto. intros ->. congruence.
+      - exists dblk. unfold h'. rewrite PM.gso, PM.gss by auto. auto. }
+    destruct (rc_v _ _ _ _ R _ _ _ H_root L) as (o0 & Lc0 & Z0 & _). rewrite (Z0 (String.eqb_refl _)) in Lc0.
+    destruct R as [T' E Ip Ih Ro Ri Tn To Bv Vv Cu]. constructor; simpl; auto.
+    - apply (TY_set_var rl (mkState (env a) h' (Pos.succ nb) (tensors a) (iters a))); simpl.
+      + apply (TY_heap rl a); auto.
+        * apply (hext_trans _ (PM.add cur dblk (heap a))).
+          -- apply hext_add. intros old F. rewrite Fe in F. inv F. auto.
+          -- apply hext_add. intros old F. rewrite PM.gso in F by auto. fold nb in F. congruence.
+        * intros k Lk. unfold h'. rewrite PM.gso by lia. rewrite PM.gso. apply (ty_fresh _ _ T). unfold nb in *. lia.
+          intros ->. rewrite (ty_fresh _ _ T cur) in Fe; [discriminate|unfold nb in *; lia].
+      + congruence.
+      + intros _. exists nblk. unfold h'. rewrite PM.gss. auto.
+    - intros y Rd. rewrite lookup_set_var. destruct (String.eqb y (r_root rl)) eqn:Q; auto.
+      apply String.eqb_eq in Q. subst. unfold rdC in Rd. rewrite H_root, andb_false_r in Rd. discriminate.
+    - intros y t0 v0 I L0. rewrite lookup_set_var in L0. destruct (String.eqb y (r_root rl)) eqn:Q.
+      + apply String.eqb_eq in Q. subst. unfold inP, ins_p, inv_p in I. rewrite Ix, H_root, andb_false_r in I.
+        discriminate.
+      + eapply inptr_mono; eauto.
+    - intros b blk F In. apply Ih; auto. unfold h' in F.
+      destruct (Pos.eq_dec b nb) as [->|N1]; [rewrite PM.gss in F; inv F; discriminate|].
+      rewrite PM.gso in F by exact N1.
+      destruct (Pos.eq_dec b cur) as [->|N2]; [rewrite PM.gss in F; inv F; discriminate|].
+      now rewrite PM.gso in F.
+    - rewrite lookup_set_var, Npo. exact Ro.
+    - intros T0 t0 ov0 I L0. rewrite lookup_set_var, (Npi _ I) in L0. eauto.
+    - intros t0 Nt. destruct (Tn t0 Nt) as [Q1 Q2]. split; auto. intros ts F. destruct (Q2 ts F) as [Q3 Q4].
+      split; [eapply inptr_mono; eauto|]. intros p q I. destruct (Q4 p q I). split; eapply inptr_mono; eauto.
+    - destruct To as (tsa & tsc & Q1 & Q2 & Q3 & Q4 & Q5 & Q6 & Q7). exists tsa, tsc. repeat split; auto.
+      unfold vrel in *. destruct Q7 as [->|(b & o & -> & Q7)]; auto.
+      right. exists b, o. split; auto. right. apply X3. destruct Q7 as [[-> _]|D]; auto.
+    - intros y t0 ov0 M L0. rewrite lookup_set_var in L0. destruct (String.eqb y (r_root rl)) eqn:Q.
+      + apply String.eqb_eq in Q. subst. inv L0. exists 0. repeat split; auto.
+        intros vE QE. inv QE. unfold vrel. right. exists nb, 0. auto.
+      + destruct (Vv y t0 ov0 M L0) as (o' & L1 & L2 & L3). exists o'. split; auto. split; [congruence|].
+        intros vE QE. specialize (L3 vE QE). unfold vrel in *. destruct L3 as [->|(b & o & -> & L3)]; auto.
+        right. exists b, o. split; auto. right. apply X3. destruct L3 as [[-> _]|D]; auto.
+    - intros _. constructor; simpl.
+      + rewrite lookup_set_var, String.eqb_refl. eauto.
+      + exists nblk, bc. unfold h'. rewrite PM.gss. repeat split; auto.
+        intros k v0 Lk Fk. simpl in Fk. rewrite keep_prefix_find in Fk.
+        destruct (Zpos k <=? n); try discriminate. auto.
+  Qed.
+
+
+  Lemma set_nth_length {A} (l : list A) : forall n x l', set_nth l n x = Some l' ->
+    List.length l' = List.length l.
+  Proof.
+    induction l as [|a0 r IH]; intros n x l' H; destruct n; simpl in H; try discriminate.
+    - inv H. reflexivity.
+    - destruct (set_nth r n x) eqn:S; try discriminate. inv H. simpl. f_equal. eauto.
+  Qed.
+
+  Lemma RA_self a : TY rl a -> RA rl [] a a.
+  Proof. intros T. constructor; auto. intros k. apply hrel_refl. Qed.
+
+  Lemma assign_field_A ph cur a c l w a1 tr : RC ph cur a c ->
+    (exists k j, l = LTIdx tout k j /\ ptr_int (heap a) w) \/
+    (l = LTVals tout /\ ptr_float (heap a) w /\ ph = true /\ w = VPtr cur 0) ->
+    assign a l w = Ok (a1, tr) -> RC ph cur a1 c.
+  Proof.
+    intros R Hl A. pose proof (rc_ty _ _ _ _ R) as T.
+    assert (T1 : TY rl a1).
+    { assert (FL : field_loc l = true) by (destruct Hl as [(k & j & -> & _)|(-> & _)]; reflexivity).
+      assert (Pv : match l with LTVals _ => ptr_float (heap a) w | _ => ptr_int (heap a) w end).
+      { destruct Hl as [(k & j & -> & P)|(-> & P & _)]; exact P. }
+      pose proof (assign_field_rel rl [] a a l w (RA_self a T) FL Pv) as X. rewrite A in X.
+      destruct X as (b1 & X1 & X2). inv X1. exact (ra_ty _ _ _ _ X2). }
+    destruct (rc_tout _ _ _ _ R) as (tsa & tsc & F1 & F2 & D & Len & Pc & Vc & Vn).
+    assert (K : exists tsa', a1 = with_tensors a (PM.add tout tsa' (tensors a)) /\
+                t_dims tsa' = t_dims tsa /\ List.length (t_idx tsa') = List.length (t_idx tsa) /\
+                vrel ph a cur (t_vals tsa') 0).
+    { destruct Hl as [(k & j & -> & P)|(-> & P & Ph & Hw)]; unfold assign, tensor_of, bind in A; rewrite F1 in A.
+      - destruct (negb (t_output tsa)); try discriminate. destruct (negb (is_ptr w)); try discriminate.
+        destruct (k <? 0); try discriminate.
+        destruct (nth_error (t_idx tsa) (Z.to_nat k)) as [[p q]|]; try discriminate.
+        destruct (if j =? 0 then Some (w, q) else if j =? 1 then Some (p, w) else None) as [pc'|];
+          try discriminate.
+        destruct (set_nth (t_idx tsa) (Z.to_nat k) pc') as [idx'|] eqn:SN; try discriminate. inv A.
+        eexists. split; [reflexivity|]. simpl. repeat split; auto. eapply set_nth_length; eauto.
+      - destruct (negb (t_output tsa)); try discriminate. destruct (negb (is_ptr w)); try discriminate.
+        inv A. eexists. split; [reflexivity|]. simpl. repeat split; auto. unfold vrel. right. exists cur, 0. auto. }
+    destruct K as (tsa' & -> & K1 & K2 & K3).
+    destruct R as [T0 E Ip Ih Ro Ri Tn To Bv Vv Cu]. constructor; simpl; auto.
+    - intros t Nt. rewrite PM.gso by exact Nt. auto.
+    - exists tsa', tsc. rewrite PM.gss. repeat split; auto; try congruence.
+    - intros P. destruct (Cu P) as [Cr Cb]. constructor; auto.
+  Qed.
+
+
+  Lemma eval_rhs_alloc st t n : eval_rhs st (ArrayAllocate t n) =
+    (do '(v, t1) <- eval st n;
+     match v with
+     | VInt z => do '(st', p, t2) <- alloc st t z; Ok (st', p, t1 ++ t2)
+     | _ => Err EIllTyped
+     end).
+  Proof. reflexivity. Qed.
+
+  Lemma eval_rhs_realloc st x t n : eval_rhs st (ArrayReallocate (Var x) t n) =
+    (do '(o, t1) <- eval st (Var x);
+     do '(v, t2) <- eval st n;
+     match v with
+     | VInt z => do '(st', p, t3) <- realloc st o t z; Ok (st', p, t1 ++ t2 ++ t3)
+     | _ => Err EIllTyped
+     end).
+  Proof. reflexivity. Qed.
+
+  Lemma drop_alloc_os ph cur a c x n : RC ph cur a c -> mem x (r_os rl) = true -> mem x pars = false ->
+    odrop bool RCx ph (exec 1 (Assignment (Var x) (ArrayAllocate TInteger n)) a) c.
+  Proof.
+    intros R Ox Np. rewrite exec_assign_var, eval_rhs_alloc.
+    destruct (eval a n) as [[v t1]|]; cbn [bind]; [|exact I]. destruct v; try exact I.
+    destruct (alloc a TInteger z) as [[[a1 p] t2]|] eqn:A; cbn [bind]; [|exact I].
+    destruct (alloc_A _ _ _ _ _ _ _ _ _ R A) as (R1 & E1 & -> & blk & F & _ & _ & _ & Fi & _).
+    destruct (lookup x (env a1)) as [[t o]|]; [|exact I].
+    destruct (coerce t (VPtr (next_blk a) 0)) as [v'|] eqn:C; [|exact I]. simpl. exists cur.
+    apply (bind_os ph cur a1 c x (VPtr (next_blk a) 0) t v' R1 Ox Np); [exists blk; auto|reflexivity|exact C].
+  Qed.
+
+  Lemma drop_alloc_root cur a c n : RC false cur a c -> mem (r_root rl) pars = false ->
+    odrop bool RCx true (exec 1 (Assignment (Var (r_root rl)) (ArrayAllocate TFloat n)) a) c.
+  Proof.
+    intros R Np. rewrite exec_assign_var, eval_rhs_alloc.
+    destruct (eval a n) as [[v t1]|]; cbn [bind]; [|exact I]. destruct v; try exact I.
+    destruct (alloc a TFloat z) as [[[a1 p] t2]|] eqn:A; cbn [bind]; [|exact I].
+    destruct (alloc_A _ _ _ _ _ _ _ _ _ R A) as (R1 & E1 & -> & blk & F & Lv & Inp & Ce & _ & Ff).
+    destruct (lookup (r_root rl) (env a1)) as [[t o]|] eqn:L; [|exact I].
+    destruct (coerce t (VPtr (next_blk a) 0)) as [v'|] eqn:C; [|exact I]. simpl. exists (next_blk a).
+    eapply bind_root_up; eauto.
+  Qed.
+
+  Lemma drop_realloc_os ph cur a c x n : RC ph cur a c -> mem x (r_os rl) = true -> mem x pars = false ->
+    odrop bool RCx ph (exec 1 (Assignment (Var x) (ArrayReallocate (Var x) TInteger n)) a) c.
+  Proof.
+    intros R Ox Np. rewrite exec_assign_var, eval_rhs_realloc.
+    destruct (eval a (Var x)) as [[w t0]|] eqn:Ex; cbn [bind]; [|exact I].
+    destruct (eval a n) as [[v t1]|]; cbn [bind]; [|exact I]. destruct v; try exact I.
+    destruct (realloc a w TInteger z) as [[[a1 p] t2]|] eqn:A; cbn [bind]; [|exact I].
+    destruct (eval_var_inv _ _ _ _ Ex) as (ty & L & Ty & _).
+    pose proof (ty_ip _ _ (rc_ty _ _ _ _ R) x ty w (H_os _ Ox) L) as Pw.
+    destruct (realloc_A _ _ _ _ _ _ _ _ _ _ R Pw A) as (R1 & E1 & -> & Pi & _).
+    destruct (lookup x (env a1)) as [[t o]|]; [|exact I].
+    destruct (coerce t (VPtr (next_blk a) 0)) as [v'|] eqn:C; [|exact I]. simpl. exists cur.
+    apply (bind_os ph cur a1 c x (VPtr (next_blk a) 0) t v' R1 Ox Np); [exact (Pi eq_refl)|reflexivity|exact C].
+  Qed.
+
+  Lemma drop_realloc_root cur a c n : RC true cur a c -> mem (r_root rl) pars = false ->
+    odrop bool RCx true
+      (exec 1 (Assignment (Var (r_root rl)) (ArrayReallocate (Var (r_root rl)) TFloat n)) a) c.
+  Proof.
+    intros R Np. rewrite exec_assign_var, eval_rhs_realloc.
+    destruct (eval a (Var (r_root rl))) as [[w t0]|] eqn:Ex; cbn [bind]; [|exact I].
+    destruct (eval a n) as [[v t1]|]; cbn [bind]; [|exact I]. destruct v; try exact I.
+    destruct (realloc a w TFloat z) as [[[a1 p] t2]|] eqn:A; cbn [bind]; [|exact I].
+    destruct (eval_var_inv _ _ _ _ Ex) as (ty & L & Ty & _).
+    destruct (rc_cur _ _ _ _ R eq_refl) as [[t' Cr] _]. rewrite Cr in L. inv L.
+    assert (E1 : env a1 = env a).
+    { unfold realloc, bind in A. simpl in A. destruct (z <? 0); try discriminate.
+      destruct (PM.find cur (heap a)); try discriminate. destruct (negb (b_live b)); try discriminate.
+      destruct (b_input b); try discriminate. destruct (negb _); try discriminate. now inv A. }
+    rewrite E1, Cr. destruct (coerce ty p) as [v'|] eqn:C; [|exact I]. simpl.
+    exists (next_blk a). rewrite <- E1. eapply realloc_root; eauto.
+  Qed.
+
+  Lemma drop_os_store ph cur a c p i e : RC ph cur a c -> mem p (r_os rl) = true ->
+    is_alloc e = false ->
+    odrop bool RCx ph (exec 1 (Assignment (ArrayIndex (Var p) i) e) a) c.
+  Proof.
+    intros R Op NA. cbn [exec]. rewrite eval_rhs_pure by exact NA.
+    destruct (eval a e) as [[v t1]|]; cbn [bind]; [|exact I]. unfold eval_loc.
+    destruct (eval a (Var p)) as [[w t2]|] eqn:Ep; cbn [bind]; [|exact I].
+    destruct (eval a i) as [[iv t3]|]; cbn [bind]; [|exact I].
+    destruct (eval_var_inv _ _ _ _ Ep) as (ty & L & Ty & _).
+    pose proof (ty_ip _ _ (rc_ty _ _ _ _ R) p ty w (H_os _ Op) L) as Pw.
+    apply typed_shape in Ty. destruct w; try exact I; try contradiction. destruct iv; try exact I.
+    unfold assign, bind. destruct (store a blk (off + z) v) as [a1|] eqn:S; [|exact I]. simpl.
+    exists cur. exact (proj1 (store_A _ _ _ _ _ _ _ _ R Pw S)).
+  Qed.
+
+  Lemma out_var ph cur a c : RC ph cur a c -> eval a (Var (r_out rl)) = Ok (VTensor tout, []).
+  Proof. intros R. cbn [eval]. now rewrite (proj1 (rc_out _ _ _ _ R)). Qed.
+
+  Lemma drop_field_idx ph cur a c k j p : RC ph cur a c -> mem p (r_os rl) = true ->
+    odrop bool RCx ph
+      (exec 1 (Assignment (idx_expr (r_out rl) k j) (Var p)) a) c.
+  Proof.
+    intros R Op. unfold idx_expr. cbn [exec]. rewrite eval_rhs_pure by reflexivity.
+    destruct (eval a (Var p)) as [[w t1]|] eqn:Ep; cbn [bind]; [|exact I].
+    destruct (eval_var_inv _ _ _ _ Ep) as (ty & L & Ty & _).
+    pose proof (ty_ip _ _ (rc_ty _ _ _ _ R) p ty w (H_os _ Op) L) as Pw.
+    unfold eval_loc. rewrite eval_idx_unf, eval_attr_unf, (out_var _ _ _ _ R). cbn [bind].
+    unfold attribute_value. simpl String.eqb. cbn [bind].
+    destruct (eval a (IntegerLiteral k)) as [[kv t2]|]; cbn [bind]; [|exact I].
+    unfold index_value at 1. destruct kv; try exact I. cbn [bind].
+    destruct (eval a (IntegerLiteral j)) as [[jv t3]|]; cbn [bind]; [|exact I].
+    destruct jv; try exact I.
+    destruct (assign a (LTIdx tout z z0) w) as [[a1 t4]|] eqn:A; [|exact I]. simpl. exists cur.
+    apply (assign_field_A ph cur a c (LTIdx tout z z0) w a1 t4 R); [left; eauto|exact A].
+  Qed.
+
+  Lemma drop_field_vals cur a c : RC true cur a c ->
+    odrop bool RCx true
+      (exec 1 (Assignment (AttributeAccess (Var (r_out rl)) "vals") (Var (r_root rl))) a) c.
+  Proof.
+    intros R. cbn [exec]. rewrite eval_rhs_pure by reflexivity.
+    destruct (eval a (Var (r_root rl))) as [[w t1]|] eqn:Ep; cbn [bind]; [|exact I].
+    destruct (eval_var_inv _ _ _ _ Ep) as (ty & L & Ty & _).
+    pose proof (ty_fp _ _ (rc_ty _ _ _ _ R) _ ty w (H_v _ H_root) L) as Pw.
+    unfold eval_loc. rewrite (out_var _ _ _ _ R). cbn [bind]. simpl String.eqb.
+    destruct (assign a (LTVals tout) w) as [[a1 t4]|] eqn:A; cbv beta iota; rewrite ?A; [|exact I]. simpl. exists cur.
+    destruct (rc_cur _ _ _ _ R eq_refl) as [[t' Cr] _]. rewrite Cr in L. inv L.
+    apply (assign_field_A true cur a c (LTVals tout) (VPtr cur 0) a1 t4 R); [right; auto|exact A].
+  Qed.
+
+
+  (** ** the dispatchers *)
+
+  Lemma idx_field_inv ts e : idx_field ts e = true ->
+    exists T k j, e = idx_expr T k j /\ mem T ts = true.
+  Proof.
+    destruct e; try discriminate. destruct e1; try discriminate. destruct e1_1; try discriminate.
+    destruct e1_1; try discriminate. simpl. intros H. split_andb.
+    destruct e1_2; try discriminate. destruct e2; try discriminate.
+    match goal with Hq : String.eqb _ "indices" = true |- _ => apply String.eqb_eq in Hq; subst end.
+    unfold idx_expr. eauto.
+  Qed.
+
+  Lemma vals_field_inv ts e : vals_field ts e = true ->
+    exists T, e = AttributeAccess (Var T) "vals" /\ mem T ts = true.
+  Proof.
+    destruct e; try discriminate. destruct e; try discriminate. simpl. intros H. split_andb.
+    match goal with Hq : String.eqb _ "vals" = true |- _ => apply String.eqb_eq in Hq; subst end. eauto.
+  Qed.
+
+  Lemma mem_single x y : mem x [y] = true -> x = y.
+  Proof. unfold mem. simpl. rewrite orb_false_r. apply String.eqb_eq. Qed.
+
+  Lemma keepC_var_sound ph cur a c x e d ph' : keepC_var rl U ph x e d = Some ph' -> RC ph cur a c ->
+    ph' = ph /\
+    (d = true -> forall t, osimK bool RCx OKF ph (exec 1 (DeclarationAssignment (Declaration (Var x) t) e) a)
+                                              (exec 1 (DeclarationAssignment (Declaration (Var x) t) e) c)) /\
+    (d = false -> osimK bool RCx OKF ph (exec 1 (Assignment (Var x) e) a) (exec 1 (Assignment (Var x) e) c)).
+  Proof.
+    unfold keepC_var. intros K R.
+    destruct (negb (mem x U) && negb (mem x (r_out rl :: r_ins rl))) eqn:Q0; try discriminate.
+    apply andb_prop in Q0. destruct Q0 as [Ux Np]. apply negb_true_iff in Ux, Np. fold pars in Np.
+    destruct (mem x (r_os rl)) eqn:Ox.
+    { destruct (d && idx_field [r_out rl] e) eqn:Q; try discriminate. inv K.
+      apply andb_prop in Q. destruct Q as [-> Q]. destruct (idx_field_inv _ _ Q) as (T & k & j & -> & MT).
+      apply mem_single in MT. subst T. split; auto. split; [|discriminate].
+      intros _ t. now apply (keep_os_unpack ph' cur). }
+    destruct (mem x (r_v rl)) eqn:Vx.
+    { destruct (d && vals_field [r_out rl] e && negb ph && String.eqb x (r_root rl)) eqn:Q.
+      - inv K. split_andb. subst d.
+        match goal with Hq : String.eqb x _ = true |- _ => apply String.eqb_eq in Hq; subst x end.
+        match goal with Hq : negb ph' = true |- _ => apply negb_true_iff in Hq; subst ph' end.
+        match goal with Hq : vals_field _ e = true |- _ => destruct (vals_field_inv _ _ Hq) as (T & -> & MT) end.
+        apply mem_single in MT. subst T. split; auto. split; [|discriminate].
+        intros _ t. now apply (keep_root_unpack cur).
+      - match type of K with (if ?X then _ else _) = _ => destruct X eqn:Q2; try discriminate end.
+        inv K. apply andb_prop in Q2. destruct Q2 as [Q2 He]. split_andb. subst d.
+        match goal with Hq : negb _ = true |- _ => apply negb_true_iff in Hq end.
+        split; auto. split; [|discriminate]. intros _ t. subst ph'. now apply (keep_bucket cur). }
+    destruct (ins_p rl x) eqn:Ix.
+    { destruct (d && idx_field (r_ins rl) e) eqn:Q; try discriminate. inv K.
+      apply andb_prop in Q. destruct Q as [-> Q]. destruct (idx_field_inv _ _ Q) as (T & k & j & -> & MT).
+      split; auto. split; [|discriminate]. intros _ t. now apply (keep_input_idx ph' cur). }
+    destruct (inv_p rl x) eqn:Vp.
+    { destruct (d && vals_field (r_ins rl) e) eqn:Q; try discriminate. inv K.
+      apply andb_prop in Q. destruct Q as [-> Q]. destruct (vals_field_inv _ _ Q) as (T & -> & MT).
+      split; auto. split; [|discriminate]. intros _ t. now apply (keep_input_vals ph' cur). }
+    destruct (scalar_var rl x && sexpC rl U false e) eqn:Q; try discriminate. inv K.
+    apply andb_prop in Q. destruct Q as [Sx Se]. split; auto. split.
+    - intros _ t. exact (keep_scalar ph' cur a c x e (Some t) R Ux Sx Se).
+    - intros _. exact (keep_scalar ph' cur a c x e None R Ux Sx Se).
+  Qed.
+
+  Lemma keepC_sound ph ph' s a c : is_atomic s = true -> keepC rl U ph s = Some ph' -> RCx ph a c ->
+    osimK bool RCx OKF ph' (exec 1 s a) (exec 1 s c).
+  Proof.
+    intros _ K [cur R].
+    destruct s as [ | tgt val | d val | | | | val | ]; try discriminate.
+    - destruct tgt as [x | | tg ix | | | | | | | | | | | | | | | | | | | ]; try discriminate.
+      + simpl in K. destruct (keepC_var_sound _ _ _ _ _ _ _ _ K R) as (-> & _ & X). auto.
+      + destruct tg; try discriminate. simpl in K.
+        match type of K with (if ?X then _ else _) = _ => destruct X eqn:Q; try discriminate end.
+        inv K. split_andb. subst. now apply (keep_store cur).
+    - destruct d as [nm t| | | | | | |]; try discriminate. destruct nm; try discriminate.
+      simpl in K. destruct (keepC_var_sound _ _ _ _ _ _ _ _ K R) as (-> & X & _). auto.
+    - simpl in K. destruct (sexpC rl U false val) eqn:Q; try discriminate. inv K.
+      now apply (keep_return ph' cur).
+  Qed.
+
+  Lemma dropC_var_sound ph cur a c x e d ph' : dropC_var rl U ph x e d = Some ph' -> RC ph cur a c ->
+    (d = true -> forall t, odrop bool RCx ph' (exec 1 (DeclarationAssignment (Declaration (Var x) t) e) a) c) /\
+    (d = false -> odrop bool RCx ph' (exec 1 (Assignment (Var x) e) a) c).
+  Proof.
+    unfold dropC_var. intros K R. fold pars in K.
+    destruct (mem x pars) eqn:Np; try discriminate.
+    assert (SC : forall ph0, (if mem x U && scalar_var rl x then Some ph0 else None) = Some ph' ->
+                 is_alloc e = false -> ph0 = ph ->
+                 (d = true -> forall t, odrop bool RCx ph' (exec 1 (DeclarationAssignment (Declaration (Var x) t) e) a) c) /\
+                 (d = false -> odrop bool RCx ph' (exec 1 (Assignment (Var x) e) a) c)).
+    { intros ph0 K0 NA ->. destruct (mem x U && scalar_var rl x) eqn:Q; try discriminate. inv K0.
+      apply andb_prop in Q. destruct Q as [Ux Sx]. split.
+      - intros _ t. exact (drop_scalar ph' cur a c x e (Some t) R Ux Sx NA).
+      - intros _. exact (drop_scalar ph' cur a c x e None R Ux Sx NA). }
+    destruct e; try (apply (SC ph K); reflexivity).
+    - (* malloc *)
+      destruct d; try discriminate. split; [discriminate|]. intros _.
+      destruct (ty_same element_type TInteger && mem x (r_os rl)) eqn:Q.
+      + inv K. apply andb_prop in Q. destruct Q as [Q1 Q2]. apply ty_same_eq in Q1. subst.
+        now apply (drop_alloc_os ph' cur).
+      + destruct (ty_same element_type TFloat && String.eqb x (r_root rl) && negb ph) eqn:Q2; try discriminate.
+        inv K. split_andb. apply ty_same_eq in H. subst.
+        match goal with Hq : String.eqb x _ = true |- _ => apply String.eqb_eq in Hq; subst x end.
+        match goal with Hq : negb ph = true |- _ => apply negb_true_iff in Hq; subst ph end.
+        now apply (drop_alloc_root cur).
+    - (* realloc *)
+      destruct e1; try discriminate.
+      destruct (negb (String.eqb x name) || d) eqn:Q0; try discriminate.
+      apply orb_false_iff in Q0. destruct Q0 as [Q0 ->]. apply negb_false_iff in Q0.
+      apply String.eqb_eq in Q0. subst name. split; [discriminate|]. intros _.
+      destruct (ty_same element_type TInteger && mem x (r_os rl)) eqn:Q.
+      + inv K. apply andb_prop in Q. destruct Q as [Q1 Q2]. apply ty_same_eq in Q1. subst.
+        now apply (drop_realloc_os ph' cur).
+      + destruct (ty_same element_type TFloat && String.eqb x (r_root rl) && ph) eqn:Q2; try discriminate.
+        inv K. split_andb. apply ty_same_eq in H. subst.
+        match goal with Hq : String.eqb x _ = true |- _ => apply String.eqb_eq in Hq; subst x end.
+        now apply (drop_realloc_root cur).
+  Qed.
+
+  Lemma dropC_sound ph ph' s a c : is_atomic s = true -> dropC rl U ph s = Some ph' -> RCx ph a c ->
+    odrop bool RCx ph' (exec 1 s a) c.
+  Proof.
+    intros _ K [cur R].
+    destruct s as [ | tgt val | d val | | | | val | ]; try discriminate.
+    - destruct tgt as [x | tg at0 | tg ix | | | | | | | | | | | | | | | | | | | ]; try discriminate.
+      + simpl in K. exact (proj2 (dropC_var_sound _ _ _ _ _ _ _ _ K R) eq_refl).
+      + destruct tg; try discriminate. destruct val; try discriminate. simpl in K.
+        match type of K with (if ?X then _ else _) = _ => destruct X eqn:Q; try discriminate end.
+        inv K. split_andb. subst.
+        repeat match goal with Hq : String.eqb _ _ = true |- _ => apply String.eqb_eq in Hq; subst end.
+        now apply (drop_field_vals cur).
+      + destruct tg as [p | | tg2 ix2 | | | | | | | | | | | | | | | | | | | ]; try discriminate.
+        * simpl in K. destruct (mem p (r_os rl) && negb (is_alloc val)) eqn:Q; try discriminate. inv K.
+          apply andb_prop in Q. destruct Q as [Q1 Q2]. apply negb_true_iff in Q2.
+          now apply (drop_os_store ph' cur).
+        * destruct tg2 as [ | tg3 at3 | | | | | | | | | | | | | | | | | | | | ]; try discriminate.
+          destruct tg3; try discriminate. destruct ix2; try discriminate. destruct ix; try discriminate.
+          destruct val; try discriminate. simpl in K.
+          match type of K with (if ?X then _ else _) = _ => destruct X eqn:Q; try discriminate end.
+          inv K. split_andb.
+          repeat match goal with Hq : String.eqb _ _ = true |- _ => apply String.eqb_eq in Hq; subst end.
+          now apply (drop_field_idx ph' cur).
+    - destruct d as [nm t| | | | | | |]; try discriminate. destruct nm; try discriminate.
+      simpl in K. exact (proj1 (dropC_var_sound _ _ _ _ _ _ _ _ K R) eq_refl t).
+  Qed.
+
+
+  (** ** statements *)
+
+  Lemma RC_tick2 ph cur a c : RC ph cur a c -> RC ph cur (tick a) (tick c).
+  Proof.
+    intros [T E Ip Ih Ro Ri Tn To Bv Vv Cu]. constructor; simpl; auto.
+    - now apply TY_tick.
+    - intros P. destruct (Cu P) as [Cr Cb]. constructor; auto.
+  Qed.
+
+  Lemma RC_tickE ph cur a c : RC ph cur a c -> RC ph cur (tick a) c.
+  Proof.
+    intros [T E Ip Ih Ro Ri Tn To Bv Vv Cu]. constructor; simpl; auto.
+    - now apply TY_tick.
+    - intros P. destruct (Cu P) as [Cr Cb]. constructor; auto.
+  Qed.
+
+  Theorem alignC_stmt_sound n sE sC ph ph' a c :
+    align bool Bool.eqb (sexpC rl U false) (keepC rl U) (dropC rl U) ph sE sC = Some ph' ->
+    RCx ph a c -> osimK bool RCx OKF ph' (exec n sE a) (exec n sC c).
+  Proof.
+    intros K R.
+    eapply (align_sound bool Bool.eqb (sexpC rl U false) (keepC rl U) (dropC rl U)); eauto.
+    - intros x y. apply Bool.eqb_prop.
+    - intros p x y [cur Rxy]. exists cur. now apply RC_tick2.
+    - intros p x y [cur Rxy]. exists cur. now apply RC_tickE.
+    - intros p e x y v t C [cur Rxy] E. exists t. eapply eval_C0; eauto.
+    - intros p p' s x y At Ke Rxy. eapply keepC_sound; eauto.
+    - intros p p' s x y At Dr Rxy. eapply dropC_sound; eauto.
   Qed.
 
 End CMP.
+
+(** * Kernels *)
+
+Definition is_tparam (p : stmt) : bool :=
+  match p with Declaration (Var _) (TPointer TTensor) => true | _ => false end.
+
+Lemma bind_params_nth ps : forall args e0 e,
+  forallb is_tparam ps = true -> nodupb (param_names ps) = true ->
+  bind_params ps args e0 = Ok e ->
+  forall i x, nth_error (param_names ps) i = Some x ->
+    exists id, nth_error args i = Some (VTensor id) /\
+               lookup x e = Some (TPointer TTensor, Some (VTensor id)).
+Proof.
+  induction ps as [|p r IH]; intros args e0 e P N B i x Hx.
+  - destruct i; discriminate.
+  - simpl in P. apply andb_prop in P. destruct P as [P1 P2].
+    destruct p as [nm t| | | | | | |]; try discriminate. destruct nm; try discriminate.
+    destruct t; try discriminate. destruct t; try discriminate.
+    destruct args as [|a args]; simpl in B; try discriminate.
+    unfold bind in B. destruct a; try discriminate B.
+    rewrite param_names_cons in N, Hx. simpl in N, Hx. apply andb_prop in N. destruct N as [N1 N2].
+    destruct i as [|i]; simpl in Hx.
+    + inv Hx. exists t. split; auto.
+      rewrite (bind_params_other _ _ _ _ x B).
+      * rewrite lookup_set_var, String.eqb_refl. reflexivity.
+      * apply mem_false_In. now apply negb_true_iff.
+    + simpl. eapply IH; eauto.
+Qed.
+
+Section CMP_CALL.
+  Variable rl : roles.
+  Variable U : list string.
+  Variable tout bV : positive.
+
+  Definition PreC (a c : state) : Prop :=
+    TY rl (with_env a []) /\
+    (forall b blk, PM.find b (heap a) = Some blk -> b_input blk = true -> PM.find b (heap c) = Some blk) /\
+    (forall t, t <> tout ->
+       PM.find t (tensors a) = PM.find t (tensors c) /\
+       forall ts, PM.find t (tensors a) = Some ts ->
+         inptr (heap a) (t_vals ts) /\
+         forall p q, In (p, q) (t_idx ts) -> inptr (heap a) p /\ inptr (heap a) q) /\
+    (exists tsa tsc,
+       PM.find tout (tensors a) = Some tsa /\ PM.find tout (tensors c) = Some tsc /\
+       t_dims tsa = t_dims tsc /\ List.length (t_idx tsa) = List.length (t_idx tsc) /\
+       (forall p q, In (p, q) (t_idx tsc) -> is_ptr p && is_ptr q = true) /\
+       t_vals tsc = VPtr bV 0 /\ t_vals tsa = VNull) /\
+    (exists bc, PM.find bV (heap c) = Some bc /\ b_live bc = true /\ b_float bc = true /\ b_input bc = false).
+
+  Lemma RC_initial a c e out ins cur :
+    PreC a c -> r_out rl = out -> r_ins rl = ins ->
+    (forall x t v, lookup x e = Some (t, Some v) -> exists id, v = VTensor id) ->
+    lookup out e = Some (TPointer TTensor, Some (VTensor tout)) ->
+    (forall T t ov, In T ins -> lookup T e = Some (t, ov) -> exists id, ov = Some (VTensor id) /\ id <> tout) ->
+    (forall x, mem x (r_v rl) = true -> lookup x e = None) ->
+    RC rl U tout bV false cur (with_env a e) (with_env c e).
+  Proof.
+    intros (T & Ih & Tn & To & Bv) <- <- Hv Ho Hi Hn.
+    constructor; simpl; auto.
+    - destruct T as [A B C D]. constructor; simpl in *; auto.
+      + intros x t v _ L. destruct (Hv _ _ _ L) as [id ->]. exact I.
+      + intros x t v _ L. destruct (Hv _ _ _ L) as [id ->]. exact I.
+    - intros x t v _ L. destruct (Hv _ _ _ L) as [id ->]. intros b o Q. discriminate.
+    - intros x t ov M L. rewrite (Hn x M) in L. discriminate.
+    - discriminate.
+  Qed.
+End CMP_CALL.
+
+Lemma forallb_mem (f : string -> bool) l x : forallb f l = true -> mem x l = true -> f x = true.
+Proof. intros F M. rewrite forallb_forall in F. apply F. now apply mem_In. Qed.
+
+Theorem compute_cert3_sound fe fc : compute_cert3 fe fc = true ->
+  forall fuel tout bV ids a c, PreC (roles_of fe) tout bV a c -> ~ In tout ids ->
+  match call fuel fe (VTensor tout :: map VTensor ids) a with
+  | Returned a' v _ =>
+      (exists c' tr', call fuel fc (VTensor tout :: map VTensor ids) c = Returned c' v tr' /\
+         exists ph cur, RC (roles_of fe) (assigned_only_in fe fc) tout bV ph cur a' c') \/
+      call fuel fc (VTensor tout :: map VTensor ids) c = Fail EOutOfBounds
+  | _ => True
+  end.
+Proof.
+  intros C fuel tout bV ids a c Pre Nin.
+  set (rl := roles_of fe) in *. set (U := assigned_only_in fe fc) in *.
+  destruct fe as [nE ps rt be], fc as [nC qs rt' bc]. unfold compute_cert3 in C. fold rl U in C.
+  do 10 (apply andb_prop in C; destruct C as [C ?]).
+  pose proof (params_same _ _ C H8 H7) as ->. apply ty_same_eq in H5. subst rt'.
+  unfold call. destruct (bind_params qs (VTensor tout :: map VTensor ids) []) as [e|] eqn:B; auto.
+  assert (H_os : forall x, mem x (r_os rl) = true -> mem x (r_ip rl) = true).
+  { intros x M. exact (forallb_mem _ _ _ H3 M). }
+  assert (H_v : forall x, mem x (r_v rl) = true -> mem x (r_fp rl) = true).
+  { intros x M. exact (forallb_mem _ _ _ H2 M). }
+  assert (H_disj : forall x, mem x (r_ip rl) = true -> mem x (r_fp rl) = false).
+  { intros x M. pose proof (forallb_mem _ _ _ H4 M) as X. now apply negb_true_iff in X. }
+  assert (H_pars : forall T, mem T (pars rl) = true -> rdC rl U T = true).
+  { intros T M. exact (forallb_mem _ _ _ H0 M). }
+  (* the parameter list *)
+  pose proof C as Pq. unfold params_ok in Pq. apply andb_prop in Pq. destruct Pq as [Pq Pl].
+  destruct qs as [|q0 qr]; [discriminate Pl|].
+  pose proof Pq as Pq'. simpl in Pq'. apply andb_prop in Pq'. destruct Pq' as [Pq0 Pqr].
+  destruct q0 as [nm t| | | | | | |]; try discriminate. destruct nm as [o| | | | | | | | | | | | | | | | | | | | |]; try discriminate.
+  destruct t; try discriminate. destruct t; try discriminate.
+  assert (Ro : r_out rl = o) by reflexivity.
+  assert (Ri : r_ins rl = param_names qr) by reflexivity.
+  assert (Pn : param_names (Declaration (Var o) (TPointer TTensor) :: qr) = o :: param_names qr) by reflexivity.
+  assert (Hv : forall x t v, lookup x e = Some (t, Some v) -> exists id, v = VTensor id).
+  { eapply bind_params_tensor; eauto. simpl. discriminate. }
+  destruct (bind_params_nth _ _ _ _ Pq H6 B 0%nat o eq_refl) as (id0 & A0 & L0). simpl in A0.
+  assert (Eid : id0 = tout) by congruence. rewrite Eid in L0. clear Eid A0.
+  assert (Hi : forall T t ov, In T (param_names qr) -> lookup T e = Some (t, ov) ->
+                 exists id, ov = Some (VTensor id) /\ id <> tout).
+  { intros T t ov I L. apply In_nth_error in I. destruct I as [i Hi'].
+    destruct (bind_params_nth _ _ _ _ Pq H6 B (S i) T) as (id & A1 & L1).
+    { rewrite Pn. exact Hi'. }
+    simpl in A1. rewrite L1 in L. assert (ov = Some (VTensor id)) by congruence. exists id. split; auto.
+    apply nth_error_In in A1. apply in_map_iff in A1. destruct A1 as (y & Q & Iy).
+    assert (y = id) by congruence. intros Q2. apply Nin. congruence. }
+  assert (Hn : forall x, mem x (r_v rl) = true -> lookup x e = None).
+  { intros x M. rewrite (bind_params_other _ _ _ _ x B); auto. intros I.
+    assert (Mp : mem x (pars rl) = true).
+    { unfold pars. rewrite Ro, Ri. apply mem_In. rewrite Pn in I. exact I. }
+    apply H_pars in Mp. unfold rdC in Mp. rewrite M in Mp. rewrite andb_false_r in Mp. discriminate. }
+  pose proof (RC_initial rl U tout bV a c e o (param_names qr) 1%positive Pre Ro Ri Hv L0 Hi Hn) as R0.
+  unfold alignC in H.
+  destruct (align bool Bool.eqb (sexpC rl U false) (keepC rl U) (dropC rl U) false be bc) as [ph'|] eqn:AL;
+    try discriminate.
+  pose proof (alignC_stmt_sound rl U tout bV H_os H_v H_disj H1 H_pars fuel be bc false ph' _ _ AL
+                (ex_intro _ 1%positive R0)) as S.
+  unfold osimK in S.
+  destruct (exec fuel be (with_env a e)) as [a' t|a' v t|x|]; auto.
+  destruct (coerce rt v) as [v'|] eqn:Cv; auto.
+  destruct (exec fuel bc (with_env c e)) as [c' t'|c' w t'|y|]; try contradiction.
+  - destruct S as [[q [cur S]] Evw]. rewrite <- Evw, Cv. left. exists c', t'. split; auto. eauto.
+  - right. unfold OKF in S. rewrite S. reflexivity.
+Qed.
+
+(** * What the relation says about the output values *)
+
+(** If, in the final state of evaluate, [out->vals] designates a LIVE block [b], then it is [(b, 0)],
+    compute's [out->vals] is still [(bV, 0)], and every initialised cell of [b] whose index is below
+    the length of [bV] has the same content in [bV]. *)
+Theorem RC_values rl U tout bV ph cur a c : RC rl U tout bV ph cur a c ->
+  exists tsa tsc, PM.find tout (tensors a) = Some tsa /\ PM.find tout (tensors c) = Some tsc /\
+    t_dims tsa = t_dims tsc /\ t_vals tsc = VPtr bV 0 /\
+    forall b o be, t_vals tsa = VPtr b o -> PM.find b (heap a) = Some be -> b_live be = true ->
+      o = 0 /\ exists bc, PM.find bV (heap c) = Some bc /\ b_live bc = true /\ b_float bc = true /\
+                          sub_cells (b_len bc) (b_cells be) (b_cells bc).
+Proof.
+  intros R. destruct (rc_tout _ _ _ _ _ _ _ _ R) as (tsa & tsc & F1 & F2 & D & _ & _ & Vc & Vr).
+  exists tsa, tsc. split; auto. split; auto. split; auto. split; auto.
+  intros blk o be Q Fb Lb. unfold vrel in Vr. destruct ph.
+  - destruct Vr as [Vr|(b0 & o0 & Q0 & Vr)]; [congruence|]. rewrite Q in Q0. inv Q0.
+    destruct Vr as [[Qb Qo]|(bk & Fk & Dk)]; [subst b0 o0|congruence].
+    destruct (rc_cur _ _ _ _ _ _ _ _ R eq_refl) as [_ (be' & bc & Fe & Le & Fle & Ie & Fc & Sub)].
+    rewrite Fe in Fb. inv Fb. split; auto.
+    destruct (rc_bv _ _ _ _ _ _ _ _ R) as (bc' & Fc' & Lc & Flc & Ic). rewrite Fc in Fc'. inv Fc'.
+    exists bc'. auto.
+  - congruence.
+Qed.
